@@ -9,6 +9,22 @@ type nat =
 | O
 | S of nat
 
+(** val option_map : ('a1 -> 'a2) -> 'a1 option -> 'a2 option **)
+
+let option_map f = function
+| Some a -> Some (f a)
+| None -> None
+
+(** val fst : ('a1 * 'a2) -> 'a1 **)
+
+let fst = function
+| (x, _) -> x
+
+(** val snd : ('a1 * 'a2) -> 'a2 **)
+
+let snd = function
+| (_, y) -> y
+
 (** val length : 'a1 list -> nat **)
 
 let rec length = function
@@ -34,12 +50,14 @@ let compOpp = function
 | Lt -> Gt
 | Gt -> Lt
 
-(** val add : nat -> nat -> nat **)
-
-let rec add n0 m =
-  match n0 with
-  | O -> m
-  | S p -> S (add p m)
+module Coq__1 = struct
+ (** val add : nat -> nat -> nat **)
+ let rec add n0 m =
+   match n0 with
+   | O -> m
+   | S p -> S (add p m)
+end
+include Coq__1
 
 (** val mul : nat -> nat -> nat **)
 
@@ -59,6 +77,17 @@ let rec sub n0 m =
 
 module Nat =
  struct
+  (** val eqb : nat -> nat -> bool **)
+
+  let rec eqb n0 m =
+    match n0 with
+    | O -> (match m with
+            | O -> true
+            | S _ -> false)
+    | S n' -> (match m with
+               | O -> false
+               | S m' -> eqb n' m')
+
   (** val leb : nat -> nat -> bool **)
 
   let rec leb n0 m =
@@ -92,6 +121,17 @@ module Nat =
                | S m' -> S (min n' m'))
  end
 
+(** val nth : nat -> 'a1 list -> 'a1 -> 'a1 **)
+
+let rec nth n0 l default =
+  match n0 with
+  | O -> (match l with
+          | [] -> default
+          | x :: _ -> x)
+  | S m -> (match l with
+            | [] -> default
+            | _ :: t -> nth m t default)
+
 (** val nth_error : 'a1 list -> nat -> 'a1 option **)
 
 let rec nth_error l = function
@@ -101,6 +141,23 @@ let rec nth_error l = function
 | S n1 -> (match l with
            | [] -> None
            | _ :: l0 -> nth_error l0 n1)
+
+(** val last : 'a1 list -> 'a1 -> 'a1 **)
+
+let rec last l d =
+  match l with
+  | [] -> d
+  | a :: l0 -> (match l0 with
+                | [] -> a
+                | _ :: _ -> last l0 d)
+
+(** val removelast : 'a1 list -> 'a1 list **)
+
+let rec removelast = function
+| [] -> []
+| a :: l0 -> (match l0 with
+              | [] -> []
+              | _ :: _ -> a :: (removelast l0))
 
 (** val rev : 'a1 list -> 'a1 list **)
 
@@ -120,6 +177,19 @@ let rec map f = function
 | [] -> []
 | a :: t -> (f a) :: (map f t)
 
+(** val flat_map : ('a1 -> 'a2 list) -> 'a1 list -> 'a2 list **)
+
+let rec flat_map f = function
+| [] -> []
+| x :: t -> app (f x) (flat_map f t)
+
+(** val fold_left : ('a1 -> 'a2 -> 'a1) -> 'a2 list -> 'a1 -> 'a1 **)
+
+let rec fold_left f l a0 =
+  match l with
+  | [] -> a0
+  | b :: t -> fold_left f t (f a0 b)
+
 (** val fold_right : ('a2 -> 'a1 -> 'a1) -> 'a1 -> 'a2 list -> 'a1 **)
 
 let rec fold_right f a0 = function
@@ -131,6 +201,24 @@ let rec fold_right f a0 = function
 let rec existsb f = function
 | [] -> false
 | a :: l0 -> (||) (f a) (existsb f l0)
+
+(** val forallb : ('a1 -> bool) -> 'a1 list -> bool **)
+
+let rec forallb f = function
+| [] -> true
+| a :: l0 -> (&&) (f a) (forallb f l0)
+
+(** val filter : ('a1 -> bool) -> 'a1 list -> 'a1 list **)
+
+let rec filter f = function
+| [] -> []
+| x :: l0 -> if f x then x :: (filter f l0) else filter f l0
+
+(** val find : ('a1 -> bool) -> 'a1 list -> 'a1 option **)
+
+let rec find f = function
+| [] -> None
+| x :: tl -> if f x then Some x else find f tl
 
 (** val firstn : nat -> 'a1 list -> 'a1 list **)
 
@@ -256,6 +344,19 @@ module Pos =
              | XH -> true
              | _ -> false)
 
+  (** val iter_op : ('a1 -> 'a1 -> 'a1) -> positive -> 'a1 -> 'a1 **)
+
+  let rec iter_op op1 p a =
+    match p with
+    | XI p0 -> op1 a (iter_op op1 p0 (op1 a a))
+    | XO p0 -> iter_op op1 p0 (op1 a a)
+    | XH -> a
+
+  (** val to_nat : positive -> nat **)
+
+  let to_nat x =
+    iter_op Coq__1.add x (S O)
+
   (** val of_succ_nat : nat -> positive **)
 
   let rec of_succ_nat = function
@@ -364,6 +465,13 @@ module Z =
        | Zneg y' -> compOpp (Pos.compare x' y')
        | _ -> Lt)
 
+  (** val leb : z -> z -> bool **)
+
+  let leb x y =
+    match compare x y with
+    | Gt -> false
+    | _ -> true
+
   (** val ltb : z -> z -> bool **)
 
   let ltb x y =
@@ -385,11 +493,43 @@ module Z =
                  | Zneg q -> Pos.eqb p q
                  | _ -> false)
 
+  (** val max : z -> z -> z **)
+
+  let max n0 m =
+    match compare n0 m with
+    | Lt -> m
+    | _ -> n0
+
+  (** val min : z -> z -> z **)
+
+  let min n0 m =
+    match compare n0 m with
+    | Gt -> m
+    | _ -> n0
+
+  (** val to_nat : z -> nat **)
+
+  let to_nat = function
+  | Zpos p -> Pos.to_nat p
+  | _ -> O
+
+  (** val to_N : z -> n **)
+
+  let to_N = function
+  | Zpos p -> Npos p
+  | _ -> N0
+
   (** val of_nat : nat -> z **)
 
   let of_nat = function
   | O -> Z0
   | S n1 -> Zpos (Pos.of_succ_nat n1)
+
+  (** val of_N : n -> z **)
+
+  let of_N = function
+  | N0 -> Z0
+  | Npos p -> Zpos p
  end
 
 type cc =
@@ -1865,6 +2005,343 @@ module Tables =
       (XO (XO (XO (XO (XO (XO XH)))))))))))))) :: ((Npos (XO (XO (XO (XO (XO
       (XO (XO (XO (XO (XO (XO (XO (XI
       XH)))))))))))))) :: []))))))))))))))))))))))))))))
+
+  (** val dir_texnode : n list list **)
+
+  let dir_texnode =
+    ((Npos (XI (XI (XI (XI (XI (XO XH))))))) :: ((Npos (XO (XO (XI (XO (XI
+      (XO XH))))))) :: ((Npos (XI (XO (XI (XO (XO (XI XH))))))) :: ((Npos (XO
+      (XO (XO (XI (XI (XI XH))))))) :: ((Npos (XO (XI (XI (XI (XO (XO
+      XH))))))) :: ((Npos (XI (XI (XI (XI (XO (XI XH))))))) :: ((Npos (XO (XO
+      (XI (XO (XO (XI XH))))))) :: ((Npos (XI (XO (XI (XO (XO (XI
+      XH))))))) :: ((Npos (XI (XI (XI (XI (XI (XO XH))))))) :: ((Npos (XI (XI
+      (XI (XI (XI (XO XH))))))) :: ((Npos (XO (XO (XI (XO (XO (XI
+      XH))))))) :: ((Npos (XI (XO (XI (XO (XO (XI XH))))))) :: ((Npos (XI (XI
+      (XO (XO (XI (XI XH))))))) :: ((Npos (XI (XI (XO (XO (XO (XI
+      XH))))))) :: ((Npos (XI (XO (XI (XO (XO (XI XH))))))) :: ((Npos (XO (XI
+      (XI (XI (XO (XI XH))))))) :: ((Npos (XO (XO (XI (XO (XO (XI
+      XH))))))) :: ((Npos (XI (XO (XO (XO (XO (XI XH))))))) :: ((Npos (XO (XI
+      (XI (XI (XO (XI XH))))))) :: ((Npos (XO (XO (XI (XO (XI (XI
+      XH))))))) :: ((Npos (XI (XI (XO (XO (XI (XI
+      XH))))))) :: []))))))))))))))))))))) :: (((Npos (XI (XI (XI (XI (XI (XO
+      XH))))))) :: ((Npos (XI (XI (XI (XI (XI (XO XH))))))) :: ((Npos (XI (XI
+      (XO (XO (XO (XI XH))))))) :: ((Npos (XO (XO (XI (XI (XO (XI
+      XH))))))) :: ((Npos (XI (XO (XO (XO (XO (XI XH))))))) :: ((Npos (XI (XI
+      (XO (XO (XI (XI XH))))))) :: ((Npos (XI (XI (XO (XO (XI (XI
+      XH))))))) :: ((Npos (XI (XI (XI (XI (XI (XO XH))))))) :: ((Npos (XI (XI
+      (XI (XI (XI (XO XH))))))) :: []))))))))) :: (((Npos (XI (XI (XI (XI (XI
+      (XO XH))))))) :: ((Npos (XI (XI (XI (XI (XI (XO XH))))))) :: ((Npos (XI
+      (XI (XO (XO (XO (XI XH))))))) :: ((Npos (XI (XI (XI (XI (XO (XI
+      XH))))))) :: ((Npos (XO (XI (XI (XI (XO (XI XH))))))) :: ((Npos (XO (XO
+      (XI (XO (XI (XI XH))))))) :: ((Npos (XI (XO (XO (XO (XO (XI
+      XH))))))) :: ((Npos (XI (XO (XO (XI (XO (XI XH))))))) :: ((Npos (XO (XI
+      (XI (XI (XO (XI XH))))))) :: ((Npos (XI (XI (XO (XO (XI (XI
+      XH))))))) :: ((Npos (XI (XI (XI (XI (XI (XO XH))))))) :: ((Npos (XI (XI
+      (XI (XI (XI (XO XH))))))) :: [])))))))))))) :: (((Npos (XI (XI (XI (XI
+      (XI (XO XH))))))) :: ((Npos (XI (XI (XI (XI (XI (XO XH))))))) :: ((Npos
+      (XO (XO (XI (XO (XO (XI XH))))))) :: ((Npos (XI (XO (XI (XO (XO (XI
+      XH))))))) :: ((Npos (XO (XO (XI (XI (XO (XI XH))))))) :: ((Npos (XI (XO
+      (XO (XO (XO (XI XH))))))) :: ((Npos (XO (XO (XI (XO (XI (XI
+      XH))))))) :: ((Npos (XO (XO (XI (XO (XI (XI XH))))))) :: ((Npos (XO (XI
+      (XO (XO (XI (XI XH))))))) :: ((Npos (XI (XI (XI (XI (XI (XO
+      XH))))))) :: ((Npos (XI (XI (XI (XI (XI (XO
+      XH))))))) :: []))))))))))) :: (((Npos (XI (XI (XI (XI (XI (XO
+      XH))))))) :: ((Npos (XI (XI (XI (XI (XI (XO XH))))))) :: ((Npos (XO (XO
+      (XI (XO (XO (XI XH))))))) :: ((Npos (XI (XO (XO (XI (XO (XI
+      XH))))))) :: ((Npos (XI (XI (XO (XO (XO (XI XH))))))) :: ((Npos (XO (XO
+      (XI (XO (XI (XI XH))))))) :: ((Npos (XI (XI (XI (XI (XI (XO
+      XH))))))) :: ((Npos (XI (XI (XI (XI (XI (XO
+      XH))))))) :: [])))))))) :: (((Npos (XI (XI (XI (XI (XI (XO
+      XH))))))) :: ((Npos (XI (XI (XI (XI (XI (XO XH))))))) :: ((Npos (XO (XO
+      (XI (XO (XO (XI XH))))))) :: ((Npos (XI (XO (XO (XI (XO (XI
+      XH))))))) :: ((Npos (XO (XI (XO (XO (XI (XI XH))))))) :: ((Npos (XI (XI
+      (XI (XI (XI (XO XH))))))) :: ((Npos (XI (XI (XI (XI (XI (XO
+      XH))))))) :: []))))))) :: (((Npos (XI (XI (XI (XI (XI (XO
+      XH))))))) :: ((Npos (XI (XI (XI (XI (XI (XO XH))))))) :: ((Npos (XO (XO
+      (XI (XO (XO (XI XH))))))) :: ((Npos (XI (XI (XI (XI (XO (XI
+      XH))))))) :: ((Npos (XI (XI (XO (XO (XO (XI XH))))))) :: ((Npos (XI (XI
+      (XI (XI (XI (XO XH))))))) :: ((Npos (XI (XI (XI (XI (XI (XO
+      XH))))))) :: []))))))) :: (((Npos (XI (XI (XI (XI (XI (XO
+      XH))))))) :: ((Npos (XI (XI (XI (XI (XI (XO XH))))))) :: ((Npos (XI (XO
+      (XI (XO (XO (XI XH))))))) :: ((Npos (XI (XO (XO (XO (XI (XI
+      XH))))))) :: ((Npos (XI (XI (XI (XI (XI (XO XH))))))) :: ((Npos (XI (XI
+      (XI (XI (XI (XO XH))))))) :: [])))))) :: (((Npos (XI (XI (XI (XI (XI
+      (XO XH))))))) :: ((Npos (XI (XI (XI (XI (XI (XO XH))))))) :: ((Npos (XO
+      (XI (XI (XO (XO (XI XH))))))) :: ((Npos (XI (XI (XI (XI (XO (XI
+      XH))))))) :: ((Npos (XO (XI (XO (XO (XI (XI XH))))))) :: ((Npos (XI (XO
+      (XI (XI (XO (XI XH))))))) :: ((Npos (XI (XO (XO (XO (XO (XI
+      XH))))))) :: ((Npos (XO (XO (XI (XO (XI (XI XH))))))) :: ((Npos (XI (XI
+      (XI (XI (XI (XO XH))))))) :: ((Npos (XI (XI (XI (XI (XI (XO
+      XH))))))) :: [])))))))))) :: (((Npos (XI (XI (XI (XI (XI (XO
+      XH))))))) :: ((Npos (XI (XI (XI (XI (XI (XO XH))))))) :: ((Npos (XI (XI
+      (XI (XO (XO (XI XH))))))) :: ((Npos (XI (XO (XI (XO (XO (XI
+      XH))))))) :: ((Npos (XI (XI (XI (XI (XI (XO XH))))))) :: ((Npos (XI (XI
+      (XI (XI (XI (XO XH))))))) :: [])))))) :: (((Npos (XI (XI (XI (XI (XI
+      (XO XH))))))) :: ((Npos (XI (XI (XI (XI (XI (XO XH))))))) :: ((Npos (XI
+      (XI (XI (XO (XO (XI XH))))))) :: ((Npos (XI (XO (XI (XO (XO (XI
+      XH))))))) :: ((Npos (XO (XO (XI (XO (XI (XI XH))))))) :: ((Npos (XI (XO
+      (XO (XO (XO (XI XH))))))) :: ((Npos (XO (XO (XI (XO (XI (XI
+      XH))))))) :: ((Npos (XO (XO (XI (XO (XI (XI XH))))))) :: ((Npos (XO (XI
+      (XO (XO (XI (XI XH))))))) :: ((Npos (XI (XI (XI (XI (XI (XO
+      XH))))))) :: ((Npos (XI (XI (XI (XI (XI (XO
+      XH))))))) :: []))))))))))) :: (((Npos (XI (XI (XI (XI (XI (XO
+      XH))))))) :: ((Npos (XI (XI (XI (XI (XI (XO XH))))))) :: ((Npos (XI (XI
+      (XI (XO (XO (XI XH))))))) :: ((Npos (XI (XO (XI (XO (XO (XI
+      XH))))))) :: ((Npos (XO (XO (XI (XO (XI (XI XH))))))) :: ((Npos (XI (XO
+      (XO (XO (XO (XI XH))))))) :: ((Npos (XO (XO (XI (XO (XI (XI
+      XH))))))) :: ((Npos (XO (XO (XI (XO (XI (XI XH))))))) :: ((Npos (XO (XI
+      (XO (XO (XI (XI XH))))))) :: ((Npos (XI (XO (XO (XI (XO (XI
+      XH))))))) :: ((Npos (XO (XI (XO (XO (XO (XI XH))))))) :: ((Npos (XI (XO
+      (XI (XO (XI (XI XH))))))) :: ((Npos (XO (XO (XI (XO (XI (XI
+      XH))))))) :: ((Npos (XI (XO (XI (XO (XO (XI XH))))))) :: ((Npos (XI (XI
+      (XI (XI (XI (XO XH))))))) :: ((Npos (XI (XI (XI (XI (XI (XO
+      XH))))))) :: [])))))))))))))))) :: (((Npos (XI (XI (XI (XI (XI (XO
+      XH))))))) :: ((Npos (XI (XI (XI (XI (XI (XO XH))))))) :: ((Npos (XI (XI
+      (XI (XO (XO (XI XH))))))) :: ((Npos (XI (XO (XI (XO (XO (XI
+      XH))))))) :: ((Npos (XO (XO (XI (XO (XI (XI XH))))))) :: ((Npos (XI (XO
+      (XO (XI (XO (XI XH))))))) :: ((Npos (XO (XO (XI (XO (XI (XI
+      XH))))))) :: ((Npos (XI (XO (XI (XO (XO (XI XH))))))) :: ((Npos (XI (XO
+      (XI (XI (XO (XI XH))))))) :: ((Npos (XI (XI (XI (XI (XI (XO
+      XH))))))) :: ((Npos (XI (XI (XI (XI (XI (XO
+      XH))))))) :: []))))))))))) :: (((Npos (XI (XI (XI (XI (XI (XO
+      XH))))))) :: ((Npos (XI (XI (XI (XI (XI (XO XH))))))) :: ((Npos (XI (XI
+      (XI (XO (XO (XI XH))))))) :: ((Npos (XI (XO (XI (XO (XO (XI
+      XH))))))) :: ((Npos (XO (XO (XI (XO (XI (XI XH))))))) :: ((Npos (XI (XI
+      (XO (XO (XI (XI XH))))))) :: ((Npos (XO (XO (XI (XO (XI (XI
+      XH))))))) :: ((Npos (XI (XO (XO (XO (XO (XI XH))))))) :: ((Npos (XO (XO
+      (XI (XO (XI (XI XH))))))) :: ((Npos (XI (XO (XI (XO (XO (XI
+      XH))))))) :: ((Npos (XI (XI (XI (XI (XI (XO XH))))))) :: ((Npos (XI (XI
+      (XI (XI (XI (XO XH))))))) :: [])))))))))))) :: (((Npos (XI (XI (XI (XI
+      (XI (XO XH))))))) :: ((Npos (XI (XI (XI (XI (XI (XO XH))))))) :: ((Npos
+      (XI (XI (XI (XO (XO (XI XH))))))) :: ((Npos (XO (XO (XI (XO (XI (XI
+      XH))))))) :: ((Npos (XI (XI (XI (XI (XI (XO XH))))))) :: ((Npos (XI (XI
+      (XI (XI (XI (XO XH))))))) :: [])))))) :: (((Npos (XI (XI (XI (XI (XI
+      (XO XH))))))) :: ((Npos (XI (XI (XI (XI (XI (XO XH))))))) :: ((Npos (XO
+      (XO (XO (XI (XO (XI XH))))))) :: ((Npos (XI (XO (XO (XO (XO (XI
+      XH))))))) :: ((Npos (XI (XI (XO (XO (XI (XI XH))))))) :: ((Npos (XO (XO
+      (XO (XI (XO (XI XH))))))) :: ((Npos (XI (XI (XI (XI (XI (XO
+      XH))))))) :: ((Npos (XI (XI (XI (XI (XI (XO
+      XH))))))) :: [])))))))) :: (((Npos (XI (XI (XI (XI (XI (XO
+      XH))))))) :: ((Npos (XI (XI (XI (XI (XI (XO XH))))))) :: ((Npos (XI (XO
+      (XO (XI (XO (XI XH))))))) :: ((Npos (XO (XI (XI (XI (XO (XI
+      XH))))))) :: ((Npos (XI (XO (XO (XI (XO (XI XH))))))) :: ((Npos (XO (XO
+      (XI (XO (XI (XI XH))))))) :: ((Npos (XI (XI (XI (XI (XI (XO
+      XH))))))) :: ((Npos (XI (XI (XI (XI (XI (XO
+      XH))))))) :: [])))))))) :: (((Npos (XI (XI (XI (XI (XI (XO
+      XH))))))) :: ((Npos (XI (XI (XI (XI (XI (XO XH))))))) :: ((Npos (XI (XO
+      (XO (XI (XO (XI XH))))))) :: ((Npos (XO (XI (XI (XI (XO (XI
+      XH))))))) :: ((Npos (XI (XO (XO (XI (XO (XI XH))))))) :: ((Npos (XO (XO
+      (XI (XO (XI (XI XH))))))) :: ((Npos (XI (XI (XI (XI (XI (XO
+      XH))))))) :: ((Npos (XI (XI (XO (XO (XI (XI XH))))))) :: ((Npos (XI (XO
+      (XI (XO (XI (XI XH))))))) :: ((Npos (XO (XI (XO (XO (XO (XI
+      XH))))))) :: ((Npos (XI (XI (XO (XO (XO (XI XH))))))) :: ((Npos (XO (XO
+      (XI (XI (XO (XI XH))))))) :: ((Npos (XI (XO (XO (XO (XO (XI
+      XH))))))) :: ((Npos (XI (XI (XO (XO (XI (XI XH))))))) :: ((Npos (XI (XI
+      (XO (XO (XI (XI XH))))))) :: ((Npos (XI (XI (XI (XI (XI (XO
+      XH))))))) :: ((Npos (XI (XI (XI (XI (XI (XO
+      XH))))))) :: []))))))))))))))))) :: (((Npos (XI (XI (XI (XI (XI (XO
+      XH))))))) :: ((Npos (XI (XI (XI (XI (XI (XO XH))))))) :: ((Npos (XI (XO
+      (XO (XI (XO (XI XH))))))) :: ((Npos (XO (XO (XI (XO (XI (XI
+      XH))))))) :: ((Npos (XI (XO (XI (XO (XO (XI XH))))))) :: ((Npos (XO (XI
+      (XO (XO (XI (XI XH))))))) :: ((Npos (XI (XI (XI (XI (XI (XO
+      XH))))))) :: ((Npos (XI (XI (XI (XI (XI (XO
+      XH))))))) :: [])))))))) :: (((Npos (XI (XI (XI (XI (XI (XO
+      XH))))))) :: ((Npos (XI (XI (XI (XI (XI (XO XH))))))) :: ((Npos (XO (XO
+      (XI (XI (XO (XI XH))))))) :: ((Npos (XI (XO (XI (XO (XO (XI
+      XH))))))) :: ((Npos (XI (XI (XI (XI (XI (XO XH))))))) :: ((Npos (XI (XI
+      (XI (XI (XI (XO XH))))))) :: [])))))) :: (((Npos (XI (XI (XI (XI (XI
+      (XO XH))))))) :: ((Npos (XI (XI (XI (XI (XI (XO XH))))))) :: ((Npos (XO
+      (XO (XI (XI (XO (XI XH))))))) :: ((Npos (XO (XO (XI (XO (XI (XI
+      XH))))))) :: ((Npos (XI (XI (XI (XI (XI (XO XH))))))) :: ((Npos (XI (XI
+      (XI (XI (XI (XO XH))))))) :: [])))))) :: (((Npos (XI (XI (XI (XI (XI
+      (XO XH))))))) :: ((Npos (XI (XI (XI (XI (XI (XO XH))))))) :: ((Npos (XI
+      (XO (XI (XI (XO (XI XH))))))) :: ((Npos (XI (XO (XO (XO (XO (XI
+      XH))))))) :: ((Npos (XO (XO (XI (XO (XI (XI XH))))))) :: ((Npos (XI (XI
+      (XO (XO (XO (XI XH))))))) :: ((Npos (XO (XO (XO (XI (XO (XI
+      XH))))))) :: ((Npos (XI (XI (XI (XI (XI (XO XH))))))) :: ((Npos (XI (XI
+      (XI (XI (XI (XO XH))))))) :: []))))))))) :: (((Npos (XI (XI (XI (XI (XI
+      (XO XH))))))) :: ((Npos (XI (XI (XI (XI (XI (XO XH))))))) :: ((Npos (XI
+      (XO (XI (XI (XO (XI XH))))))) :: ((Npos (XI (XI (XI (XI (XO (XI
+      XH))))))) :: ((Npos (XO (XO (XI (XO (XO (XI XH))))))) :: ((Npos (XI (XO
+      (XI (XO (XI (XI XH))))))) :: ((Npos (XO (XO (XI (XI (XO (XI
+      XH))))))) :: ((Npos (XI (XO (XI (XO (XO (XI XH))))))) :: ((Npos (XI (XI
+      (XI (XI (XI (XO XH))))))) :: ((Npos (XI (XI (XI (XI (XI (XO
+      XH))))))) :: [])))))))))) :: (((Npos (XI (XI (XI (XI (XI (XO
+      XH))))))) :: ((Npos (XI (XI (XI (XI (XI (XO XH))))))) :: ((Npos (XO (XI
+      (XI (XI (XO (XI XH))))))) :: ((Npos (XI (XO (XI (XO (XO (XI
+      XH))))))) :: ((Npos (XI (XI (XI (XI (XI (XO XH))))))) :: ((Npos (XI (XI
+      (XI (XI (XI (XO XH))))))) :: [])))))) :: (((Npos (XI (XI (XI (XI (XI
+      (XO XH))))))) :: ((Npos (XI (XI (XI (XI (XI (XO XH))))))) :: ((Npos (XO
+      (XI (XI (XI (XO (XI XH))))))) :: ((Npos (XI (XO (XI (XO (XO (XI
+      XH))))))) :: ((Npos (XI (XI (XI (XO (XI (XI XH))))))) :: ((Npos (XI (XI
+      (XI (XI (XI (XO XH))))))) :: ((Npos (XI (XI (XI (XI (XI (XO
+      XH))))))) :: []))))))) :: (((Npos (XI (XI (XI (XI (XI (XO
+      XH))))))) :: ((Npos (XI (XI (XI (XI (XI (XO XH))))))) :: ((Npos (XO (XI
+      (XO (XO (XI (XI XH))))))) :: ((Npos (XI (XO (XI (XO (XO (XI
+      XH))))))) :: ((Npos (XO (XO (XI (XO (XO (XI XH))))))) :: ((Npos (XI (XO
+      (XI (XO (XI (XI XH))))))) :: ((Npos (XI (XI (XO (XO (XO (XI
+      XH))))))) :: ((Npos (XI (XO (XI (XO (XO (XI XH))))))) :: ((Npos (XI (XI
+      (XI (XI (XI (XO XH))))))) :: ((Npos (XI (XI (XI (XI (XI (XO
+      XH))))))) :: [])))))))))) :: (((Npos (XI (XI (XI (XI (XI (XO
+      XH))))))) :: ((Npos (XI (XI (XI (XI (XI (XO XH))))))) :: ((Npos (XO (XI
+      (XO (XO (XI (XI XH))))))) :: ((Npos (XI (XO (XI (XO (XO (XI
+      XH))))))) :: ((Npos (XO (XO (XI (XO (XO (XI XH))))))) :: ((Npos (XI (XO
+      (XI (XO (XI (XI XH))))))) :: ((Npos (XI (XI (XO (XO (XO (XI
+      XH))))))) :: ((Npos (XI (XO (XI (XO (XO (XI XH))))))) :: ((Npos (XI (XI
+      (XI (XI (XI (XO XH))))))) :: ((Npos (XI (XO (XI (XO (XO (XI
+      XH))))))) :: ((Npos (XO (XO (XO (XI (XI (XI XH))))))) :: ((Npos (XI (XI
+      (XI (XI (XI (XO XH))))))) :: ((Npos (XI (XI (XI (XI (XI (XO
+      XH))))))) :: []))))))))))))) :: (((Npos (XI (XI (XI (XI (XI (XO
+      XH))))))) :: ((Npos (XI (XI (XI (XI (XI (XO XH))))))) :: ((Npos (XO (XI
+      (XO (XO (XI (XI XH))))))) :: ((Npos (XI (XO (XI (XO (XO (XI
+      XH))))))) :: ((Npos (XO (XO (XO (XO (XI (XI XH))))))) :: ((Npos (XO (XI
+      (XO (XO (XI (XI XH))))))) :: ((Npos (XI (XI (XI (XI (XI (XO
+      XH))))))) :: ((Npos (XI (XI (XI (XI (XI (XO
+      XH))))))) :: [])))))))) :: (((Npos (XI (XI (XI (XI (XI (XO
+      XH))))))) :: ((Npos (XI (XI (XI (XI (XI (XO XH))))))) :: ((Npos (XI (XI
+      (XO (XO (XI (XI XH))))))) :: ((Npos (XI (XO (XI (XO (XO (XI
+      XH))))))) :: ((Npos (XO (XO (XI (XO (XI (XI XH))))))) :: ((Npos (XI (XO
+      (XO (XO (XO (XI XH))))))) :: ((Npos (XO (XO (XI (XO (XI (XI
+      XH))))))) :: ((Npos (XO (XO (XI (XO (XI (XI XH))))))) :: ((Npos (XO (XI
+      (XO (XO (XI (XI XH))))))) :: ((Npos (XI (XI (XI (XI (XI (XO
+      XH))))))) :: ((Npos (XI (XI (XI (XI (XI (XO
+      XH))))))) :: []))))))))))) :: (((Npos (XI (XI (XI (XI (XI (XO
+      XH))))))) :: ((Npos (XI (XI (XI (XI (XI (XO XH))))))) :: ((Npos (XI (XI
+      (XO (XO (XI (XI XH))))))) :: ((Npos (XI (XO (XO (XI (XO (XI
+      XH))))))) :: ((Npos (XO (XI (XO (XI (XI (XI XH))))))) :: ((Npos (XI (XO
+      (XI (XO (XO (XI XH))))))) :: ((Npos (XI (XI (XI (XI (XO (XI
+      XH))))))) :: ((Npos (XO (XI (XI (XO (XO (XI XH))))))) :: ((Npos (XI (XI
+      (XI (XI (XI (XO XH))))))) :: ((Npos (XI (XI (XI (XI (XI (XO
+      XH))))))) :: [])))))))))) :: (((Npos (XI (XI (XI (XI (XI (XO
+      XH))))))) :: ((Npos (XI (XI (XI (XI (XI (XO XH))))))) :: ((Npos (XI (XI
+      (XO (XO (XI (XI XH))))))) :: ((Npos (XO (XO (XI (XO (XI (XI
+      XH))))))) :: ((Npos (XO (XI (XO (XO (XI (XI XH))))))) :: ((Npos (XI (XI
+      (XI (XI (XI (XO XH))))))) :: ((Npos (XI (XI (XI (XI (XI (XO
+      XH))))))) :: []))))))) :: (((Npos (XI (XI (XI (XI (XI (XO
+      XH))))))) :: ((Npos (XI (XI (XI (XI (XI (XO XH))))))) :: ((Npos (XI (XI
+      (XO (XO (XI (XI XH))))))) :: ((Npos (XI (XO (XI (XO (XI (XI
+      XH))))))) :: ((Npos (XO (XI (XO (XO (XO (XI XH))))))) :: ((Npos (XI (XI
+      (XO (XO (XO (XI XH))))))) :: ((Npos (XO (XO (XI (XI (XO (XI
+      XH))))))) :: ((Npos (XI (XO (XO (XO (XO (XI XH))))))) :: ((Npos (XI (XI
+      (XO (XO (XI (XI XH))))))) :: ((Npos (XI (XI (XO (XO (XI (XI
+      XH))))))) :: ((Npos (XO (XO (XO (XI (XO (XI XH))))))) :: ((Npos (XI (XI
+      (XI (XI (XO (XI XH))))))) :: ((Npos (XI (XI (XI (XI (XO (XI
+      XH))))))) :: ((Npos (XI (XI (XO (XI (XO (XI XH))))))) :: ((Npos (XI (XI
+      (XI (XI (XI (XO XH))))))) :: ((Npos (XI (XI (XI (XI (XI (XO
+      XH))))))) :: [])))))))))))))))) :: (((Npos (XI (XI (XI (XI (XI (XO
+      XH))))))) :: ((Npos (XI (XI (XI (XI (XI (XO XH))))))) :: ((Npos (XI (XI
+      (XI (XO (XI (XI XH))))))) :: ((Npos (XI (XO (XI (XO (XO (XI
+      XH))))))) :: ((Npos (XI (XO (XO (XO (XO (XI XH))))))) :: ((Npos (XI (XI
+      (XO (XI (XO (XI XH))))))) :: ((Npos (XO (XI (XO (XO (XI (XI
+      XH))))))) :: ((Npos (XI (XO (XI (XO (XO (XI XH))))))) :: ((Npos (XO (XI
+      (XI (XO (XO (XI XH))))))) :: ((Npos (XI (XI (XI (XI (XI (XO
+      XH))))))) :: ((Npos (XI (XI (XI (XI (XI (XO
+      XH))))))) :: []))))))))))) :: (((Npos (XI (XO (XO (XO (XO (XI
+      XH))))))) :: ((Npos (XO (XO (XI (XI (XO (XI XH))))))) :: ((Npos (XO (XO
+      (XI (XI (XO (XI XH))))))) :: []))) :: (((Npos (XI (XO (XO (XO (XO (XI
+      XH))))))) :: ((Npos (XO (XO (XO (XO (XI (XI XH))))))) :: ((Npos (XO (XO
+      (XO (XO (XI (XI XH))))))) :: ((Npos (XI (XO (XI (XO (XO (XI
+      XH))))))) :: ((Npos (XO (XI (XI (XI (XO (XI XH))))))) :: ((Npos (XO (XO
+      (XI (XO (XO (XI XH))))))) :: [])))))) :: (((Npos (XI (XO (XO (XO (XO
+      (XI XH))))))) :: ((Npos (XO (XI (XO (XO (XI (XI XH))))))) :: ((Npos (XI
+      (XI (XI (XO (XO (XI XH))))))) :: ((Npos (XI (XI (XO (XO (XI (XI
+      XH))))))) :: [])))) :: (((Npos (XI (XI (XO (XO (XO (XI
+      XH))))))) :: ((Npos (XO (XO (XO (XI (XO (XI XH))))))) :: ((Npos (XI (XO
+      (XO (XO (XO (XI XH))))))) :: ((Npos (XO (XI (XO (XO (XI (XI
+      XH))))))) :: ((Npos (XI (XI (XI (XI (XI (XO XH))))))) :: ((Npos (XO (XO
+      (XO (XO (XI (XI XH))))))) :: ((Npos (XI (XI (XI (XI (XO (XI
+      XH))))))) :: ((Npos (XI (XI (XO (XO (XI (XI XH))))))) :: ((Npos (XI (XI
+      (XI (XI (XI (XO XH))))))) :: ((Npos (XO (XO (XI (XO (XI (XI
+      XH))))))) :: ((Npos (XI (XI (XI (XI (XO (XI XH))))))) :: ((Npos (XI (XI
+      (XI (XI (XI (XO XH))))))) :: ((Npos (XO (XO (XI (XI (XO (XI
+      XH))))))) :: ((Npos (XI (XO (XO (XI (XO (XI XH))))))) :: ((Npos (XO (XI
+      (XI (XI (XO (XI XH))))))) :: ((Npos (XI (XO (XI (XO (XO (XI
+      XH))))))) :: [])))))))))))))))) :: (((Npos (XI (XI (XO (XO (XO (XI
+      XH))))))) :: ((Npos (XO (XO (XO (XI (XO (XI XH))))))) :: ((Npos (XI (XO
+      (XO (XI (XO (XI XH))))))) :: ((Npos (XO (XO (XI (XI (XO (XI
+      XH))))))) :: ((Npos (XO (XO (XI (XO (XO (XI XH))))))) :: ((Npos (XO (XI
+      (XO (XO (XI (XI XH))))))) :: ((Npos (XI (XO (XI (XO (XO (XI
+      XH))))))) :: ((Npos (XO (XI (XI (XI (XO (XI
+      XH))))))) :: [])))))))) :: (((Npos (XI (XI (XO (XO (XO (XI
+      XH))))))) :: ((Npos (XI (XI (XI (XI (XO (XI XH))))))) :: ((Npos (XO (XI
+      (XI (XI (XO (XI XH))))))) :: ((Npos (XO (XO (XI (XO (XI (XI
+      XH))))))) :: ((Npos (XI (XO (XI (XO (XO (XI XH))))))) :: ((Npos (XO (XI
+      (XI (XI (XO (XI XH))))))) :: ((Npos (XO (XO (XI (XO (XI (XI
+      XH))))))) :: ((Npos (XI (XI (XO (XO (XI (XI
+      XH))))))) :: [])))))))) :: (((Npos (XI (XI (XO (XO (XO (XI
+      XH))))))) :: ((Npos (XI (XI (XI (XI (XO (XI XH))))))) :: ((Npos (XO (XO
+      (XO (XO (XI (XI XH))))))) :: ((Npos (XI (XO (XO (XI (XI (XI
+      XH))))))) :: [])))) :: (((Npos (XI (XI (XO (XO (XO (XI
+      XH))))))) :: ((Npos (XI (XI (XI (XI (XO (XI XH))))))) :: ((Npos (XI (XO
+      (XI (XO (XI (XI XH))))))) :: ((Npos (XO (XI (XI (XI (XO (XI
+      XH))))))) :: ((Npos (XO (XO (XI (XO (XI (XI
+      XH))))))) :: []))))) :: (((Npos (XO (XO (XI (XO (XO (XI
+      XH))))))) :: ((Npos (XI (XO (XI (XO (XO (XI XH))))))) :: ((Npos (XO (XO
+      (XI (XI (XO (XI XH))))))) :: ((Npos (XI (XO (XI (XO (XO (XI
+      XH))))))) :: ((Npos (XO (XO (XI (XO (XI (XI XH))))))) :: ((Npos (XI (XO
+      (XI (XO (XO (XI XH))))))) :: [])))))) :: (((Npos (XO (XO (XI (XO (XO
+      (XI XH))))))) :: ((Npos (XI (XO (XI (XO (XO (XI XH))))))) :: ((Npos (XI
+      (XI (XO (XO (XI (XI XH))))))) :: ((Npos (XI (XI (XO (XO (XO (XI
+      XH))))))) :: ((Npos (XI (XO (XI (XO (XO (XI XH))))))) :: ((Npos (XO (XI
+      (XI (XI (XO (XI XH))))))) :: ((Npos (XO (XO (XI (XO (XO (XI
+      XH))))))) :: ((Npos (XI (XO (XO (XO (XO (XI XH))))))) :: ((Npos (XO (XI
+      (XI (XI (XO (XI XH))))))) :: ((Npos (XO (XO (XI (XO (XI (XI
+      XH))))))) :: ((Npos (XI (XI (XO (XO (XI (XI
+      XH))))))) :: []))))))))))) :: (((Npos (XO (XI (XI (XO (XO (XI
+      XH))))))) :: ((Npos (XI (XO (XO (XI (XO (XI XH))))))) :: ((Npos (XO (XI
+      (XI (XI (XO (XI XH))))))) :: ((Npos (XO (XO (XI (XO (XO (XI
+      XH))))))) :: [])))) :: (((Npos (XO (XI (XI (XO (XO (XI
+      XH))))))) :: ((Npos (XI (XO (XO (XI (XO (XI XH))))))) :: ((Npos (XO (XI
+      (XI (XI (XO (XI XH))))))) :: ((Npos (XO (XO (XI (XO (XO (XI
+      XH))))))) :: ((Npos (XI (XI (XI (XI (XI (XO XH))))))) :: ((Npos (XI (XO
+      (XO (XO (XO (XI XH))))))) :: ((Npos (XO (XO (XI (XI (XO (XI
+      XH))))))) :: ((Npos (XO (XO (XI (XI (XO (XI
+      XH))))))) :: [])))))))) :: (((Npos (XI (XO (XO (XI (XO (XI
+      XH))))))) :: ((Npos (XO (XI (XI (XI (XO (XI XH))))))) :: ((Npos (XI (XI
+      (XO (XO (XI (XI XH))))))) :: ((Npos (XI (XO (XI (XO (XO (XI
+      XH))))))) :: ((Npos (XO (XI (XO (XO (XI (XI XH))))))) :: ((Npos (XO (XO
+      (XI (XO (XI (XI XH))))))) :: [])))))) :: (((Npos (XO (XI (XI (XI (XO
+      (XI XH))))))) :: ((Npos (XI (XO (XO (XO (XO (XI XH))))))) :: ((Npos (XI
+      (XO (XI (XI (XO (XI XH))))))) :: ((Npos (XI (XO (XI (XO (XO (XI
+      XH))))))) :: [])))) :: (((Npos (XO (XO (XO (XO (XI (XI
+      XH))))))) :: ((Npos (XI (XI (XI (XI (XO (XI XH))))))) :: ((Npos (XI (XI
+      (XO (XO (XI (XI XH))))))) :: ((Npos (XI (XO (XO (XI (XO (XI
+      XH))))))) :: ((Npos (XO (XO (XI (XO (XI (XI XH))))))) :: ((Npos (XI (XO
+      (XO (XI (XO (XI XH))))))) :: ((Npos (XI (XI (XI (XI (XO (XI
+      XH))))))) :: ((Npos (XO (XI (XI (XI (XO (XI
+      XH))))))) :: [])))))))) :: (((Npos (XO (XI (XO (XO (XI (XI
+      XH))))))) :: ((Npos (XI (XO (XI (XO (XO (XI XH))))))) :: ((Npos (XI (XO
+      (XI (XI (XO (XI XH))))))) :: ((Npos (XI (XI (XI (XI (XO (XI
+      XH))))))) :: ((Npos (XO (XI (XI (XO (XI (XI XH))))))) :: ((Npos (XI (XO
+      (XI (XO (XO (XI XH))))))) :: [])))))) :: (((Npos (XO (XI (XO (XO (XI
+      (XI XH))))))) :: ((Npos (XI (XO (XI (XO (XO (XI XH))))))) :: ((Npos (XO
+      (XO (XO (XO (XI (XI XH))))))) :: ((Npos (XO (XO (XI (XI (XO (XI
+      XH))))))) :: ((Npos (XI (XO (XO (XO (XO (XI XH))))))) :: ((Npos (XI (XI
+      (XO (XO (XO (XI XH))))))) :: ((Npos (XI (XO (XI (XO (XO (XI
+      XH))))))) :: []))))))) :: (((Npos (XO (XI (XO (XO (XI (XI
+      XH))))))) :: ((Npos (XI (XO (XI (XO (XO (XI XH))))))) :: ((Npos (XO (XO
+      (XO (XO (XI (XI XH))))))) :: ((Npos (XO (XO (XI (XI (XO (XI
+      XH))))))) :: ((Npos (XI (XO (XO (XO (XO (XI XH))))))) :: ((Npos (XI (XI
+      (XO (XO (XO (XI XH))))))) :: ((Npos (XI (XO (XI (XO (XO (XI
+      XH))))))) :: ((Npos (XI (XI (XI (XI (XI (XO XH))))))) :: ((Npos (XI (XI
+      (XI (XO (XI (XI XH))))))) :: ((Npos (XI (XO (XO (XI (XO (XI
+      XH))))))) :: ((Npos (XO (XO (XI (XO (XI (XI XH))))))) :: ((Npos (XO (XO
+      (XO (XI (XO (XI XH))))))) :: [])))))))))))) :: (((Npos (XI (XI (XO (XO
+      (XI (XI XH))))))) :: ((Npos (XI (XO (XI (XO (XO (XI XH))))))) :: ((Npos
+      (XI (XO (XO (XO (XO (XI XH))))))) :: ((Npos (XO (XI (XO (XO (XI (XI
+      XH))))))) :: ((Npos (XI (XI (XO (XO (XO (XI XH))))))) :: ((Npos (XO (XO
+      (XO (XI (XO (XI XH))))))) :: ((Npos (XI (XI (XI (XI (XI (XO
+      XH))))))) :: ((Npos (XO (XI (XO (XO (XI (XI XH))))))) :: ((Npos (XI (XO
+      (XI (XO (XO (XI XH))))))) :: ((Npos (XI (XI (XI (XO (XO (XI
+      XH))))))) :: ((Npos (XI (XO (XI (XO (XO (XI XH))))))) :: ((Npos (XO (XO
+      (XO (XI (XI (XI XH))))))) :: [])))))))))))) :: (((Npos (XI (XI (XO (XO
+      (XI (XI XH))))))) :: ((Npos (XO (XO (XI (XO (XI (XI XH))))))) :: ((Npos
+      (XO (XI (XO (XO (XI (XI XH))))))) :: ((Npos (XI (XO (XO (XI (XO (XI
+      XH))))))) :: ((Npos (XO (XI (XI (XI (XO (XI XH))))))) :: ((Npos (XI (XI
+      (XI (XO (XO (XI XH))))))) :: [])))))) :: (((Npos (XO (XO (XI (XO (XI
+      (XI XH))))))) :: ((Npos (XI (XO (XI (XO (XO (XI XH))))))) :: ((Npos (XO
+      (XO (XO (XI (XI (XI XH))))))) :: ((Npos (XO (XO (XI (XO (XI (XI
+      XH))))))) :: [])))) :: [])))))))))))))))))))))))))))))))))))))))))))))))))))))
  end
 
 type cchar = { ch : n; cpos : z; ccat : cc }
@@ -2305,6 +2782,13 @@ let math_end k =
   | Some p -> let (_, p1) = p in let (p2, _) = p1 in let (_, e) = p2 in e
   | None -> []
 
+(** val math_name : mathkind -> str **)
+
+let math_name k =
+  match lookup_mk k Tables.math_classes with
+  | Some p -> let (_, p1) = p in let (_, n0) = p1 in n0
+  | None -> []
+
 (** val math_tok_end : mathkind -> tc option **)
 
 let math_tok_end k =
@@ -2324,6 +2808,13 @@ let group_begin k =
 let group_end k =
   match lookup_gk k Tables.group_classes with
   | Some p -> let (_, p1) = p in let (p2, _) = p1 in let (_, e) = p2 in e
+  | None -> []
+
+(** val group_name : groupkind -> str **)
+
+let group_name k =
+  match lookup_gk k Tables.group_classes with
+  | Some p -> let (_, p1) = p in let (_, n0) = p1 in n0
   | None -> []
 
 (** val group_tok_end : groupkind -> tc option **)
@@ -2599,8 +3090,8 @@ let rec read_expr fuel skip strict m toks =
                  then if mode_is_math m
                       then Err AssertionError
                       else bind (read_item_loop f [] src1) (fun pat0 ->
-                             let (contents, src2) = pat0 in
-                             Ok ((ECmd ((strip name), args, contents,
+                             let (contents0, src2) = pat0 in
+                             Ok ((ECmd ((strip name), args, contents0,
                              c.tpos)), src2))
                  else if (&&) (str_eqb name s_begin)
                            (negb (mode_is_special m))
@@ -2632,7 +3123,7 @@ and read_item_loop fuel acc toks =
     (match toks with
      | [] -> Ok (acc, toks)
      | t :: _ ->
-       let step =
+       let step1 =
          bind (read_expr f [] true MNonMath toks) (fun pat ->
            let (e, src1) = pat in read_item_loop f (app acc (e :: [])) src1)
        in
@@ -2644,8 +3135,8 @@ and read_item_loop fuel acc toks =
               let (cname, _) = p in
               if (||) (str_eqb cname s_end) (str_eqb cname s_item)
               then Ok (acc, toks)
-              else step)
-       else if is_tc TGroupEnd t then Ok (acc, toks) else step)
+              else step1)
+       else if is_tc TGroupEnd t then Ok (acc, toks) else step1)
 
 (** val read_math_loop :
     nat -> mathkind -> z -> bool -> expr list -> token list -> (expr * token
@@ -2699,7 +3190,7 @@ and read_env_loop fuel name args pos skip strict m acc toks =
     (match toks with
      | [] -> finish None
      | t :: _ ->
-       let step =
+       let step1 =
          bind (read_expr f skip strict m toks) (fun pat ->
            let (e, src1) = pat in
            read_env_loop f name args pos skip strict m (app acc (e :: []))
@@ -2710,8 +3201,8 @@ and read_env_loop fuel name args pos skip strict m acc toks =
               (fun pat ->
               let (p, _) = pat in
               let (cname, cargs) = p in
-              if str_eqb cname s_end then finish (Some cargs) else step)
-       else step)
+              if str_eqb cname s_end then finish (Some cargs) else step1)
+       else step1)
 
 (** val read_command :
     nat -> z -> z -> nat -> bool -> mode -> token list -> ((str * expr
@@ -2897,27 +3388,2469 @@ let parse s strict user_skip =
    | TEnd -> parse_tokens toks strict user_skip
    | _ -> Err TokenizerError)
 
+(** val is_lf : n -> bool **)
+
+let is_lf c =
+  N.eqb c (Npos (XO (XI (XO XH))))
+
+(** val line_breaks_from : n list -> z -> z list **)
+
+let rec line_breaks_from src k =
+  match src with
+  | [] -> []
+  | c :: r ->
+    if is_lf c
+    then k :: (line_breaks_from r (Z.add k (Zpos XH)))
+    else line_breaks_from r (Z.add k (Zpos XH))
+
+(** val line_breaks : n list -> z list **)
+
+let line_breaks src =
+  line_breaks_from src Z0
+
+(** val bisect_left : z list -> z -> nat **)
+
+let rec bisect_left l x =
+  match l with
+  | [] -> O
+  | y :: r -> if Z.ltb y x then S (bisect_left r x) else bisect_left r x
+
+(** val py_last : z list -> z **)
+
+let py_last l =
+  last l Z0
+
+(** val py_nth : z list -> z -> z **)
+
+let py_nth l k =
+  nth (Z.to_nat k) l Z0
+
+(** val clo : n list -> z -> z * z **)
+
+let clo src char_pos =
+  let lbp = line_breaks src in
+  let src_len = Z.of_nat (length src) in
+  let line_no = Z.of_nat (bisect_left lbp char_pos) in
+  if Z.eqb line_no Z0
+  then (line_no, char_pos)
+  else if Z.eqb line_no (Z.of_nat (length lbp))
+       then let line_start = py_last lbp in
+            (line_no,
+            (Z.min (Z.sub (Z.sub char_pos line_start) (Zpos XH))
+              (Z.sub src_len line_start)))
+       else (line_no,
+              (Z.sub (Z.sub char_pos (py_nth lbp (Z.sub line_no (Zpos XH))))
+                (Zpos XH)))
+
 (** val run_clo : z list -> z list **)
 
-let run_clo _ =
-  []
+let run_clo = function
+| [] -> []
+| off :: cs -> let (l, c) = clo (map Z.to_N cs) off in l :: (c :: [])
+
+type exn =
+| StopIteration0
+| IndexError
+| AssertionError0
+| AttributeError
+| OutOfFuel0
+
+type out =
+| OItem of z
+| ONone
+| OItems of z list
+| OBool of bool
+| OInt of z
+| OExc of exn
+
+type state = { items : z list; mat : nat; cursor : z }
+
+(** val init_state : z list -> state **)
+
+let init_state l =
+  { items = l; mat = O; cursor = Z0 }
+
+(** val queue : state -> z list **)
+
+let queue s =
+  firstn s.mat s.items
+
+(** val set_cursor : state -> z -> state **)
+
+let set_cursor s c =
+  { items = s.items; mat = s.mat; cursor = c }
+
+(** val py_index : z list -> z -> out **)
+
+let py_index l k =
+  let m = Z.of_nat (length l) in
+  let k' = if Z.ltb k Z0 then Z.add k m else k in
+  if (||) (Z.ltb k' Z0) (Z.leb m k')
+  then OExc IndexError
+  else (match nth_error l (Z.to_nat k') with
+        | Some x -> OItem x
+        | None -> OExc IndexError)
+
+(** val norm_idx : z -> z option -> z -> z **)
+
+let norm_idx m o dflt =
+  match o with
+  | Some k -> if Z.ltb k Z0 then Z.max (Z.add k m) Z0 else Z.min k m
+  | None -> dflt
+
+(** val py_slice : z list -> z option -> z option -> z list **)
+
+let py_slice l lo hi =
+  let m = Z.of_nat (length l) in
+  let a = norm_idx m lo Z0 in
+  let b = norm_idx m hi m in
+  firstn (Z.to_nat (Z.sub b a)) (skipn (Z.to_nat a) l)
+
+(** val next_raw : state -> state * out **)
+
+let next_raw s =
+  let n0 = length s.items in
+  let i = s.cursor in
+  if Z.ltb i (Z.of_nat s.mat)
+  then ({ items = s.items; mat = s.mat; cursor = (Z.add i (Zpos XH)) },
+         (py_index (queue s) i))
+  else if Z.leb (Z.add i (Zpos XH)) (Z.of_nat n0)
+       then let s' = { items = s.items; mat = (Z.to_nat (Z.add i (Zpos XH)));
+              cursor = (Z.add i (Zpos XH)) }
+            in
+            (s', (py_index (queue s') i))
+       else ({ items = s.items; mat = n0; cursor = i }, (OExc StopIteration0))
+
+(** val bound_ok : z -> z option -> bool **)
+
+let bound_ok c = function
+| Some j0 -> Z.leb c j0
+| None -> true
+
+(** val advance : nat -> state -> z option -> state * exn option **)
+
+let rec advance fuel s j =
+  if bound_ok s.cursor j
+  then (match fuel with
+        | O -> (s, (Some OutOfFuel0))
+        | S f ->
+          let (s', o) = next_raw s in
+          (match o with
+           | OExc e ->
+             (match e with
+              | StopIteration0 -> (s', None)
+              | _ -> (s', (Some e)))
+           | _ -> advance f s' j))
+  else (s, None)
+
+(** val advance_fuel : state -> nat **)
+
+let advance_fuel s =
+  add (S (length s.items)) (Z.to_nat (Z.opp s.cursor))
+
+(** val getitem_int : state -> z -> state * out **)
+
+let getitem_int s k =
+  let old = s.cursor in
+  let (s1, o) = advance (advance_fuel s) s (Some k) in
+  (match o with
+   | Some e -> (s1, (OExc e))
+   | None -> let s2 = set_cursor s1 old in (s2, (py_index (queue s2) k)))
+
+(** val getitem_slice : state -> z option -> z option -> state * out **)
+
+let getitem_slice s lo hi =
+  let old = s.cursor in
+  let (s1, o) = advance (advance_fuel s) s hi in
+  (match o with
+   | Some e -> (s1, (OExc e))
+   | None ->
+     let s2 = set_cursor s1 old in (s2, (OItems (py_slice (queue s2) lo hi))))
+
+(** val catch_index : (state * out) -> state * out **)
+
+let catch_index r = match r with
+| (s, o) ->
+  (match o with
+   | OExc e -> (match e with
+                | IndexError -> (s, ONone)
+                | _ -> r)
+   | _ -> r)
+
+(** val peek_int : state -> z -> state * out **)
+
+let peek_int s j =
+  catch_index (getitem_int s (Z.add s.cursor j))
+
+(** val peek_range : state -> z -> z -> state * out **)
+
+let peek_range s a b =
+  catch_index
+    (getitem_slice s (Some (Z.add s.cursor a)) (Some (Z.add s.cursor b)))
+
+(** val truthy : out -> bool **)
+
+let truthy = function
+| OItem _ -> true
+| OItems l -> (match l with
+               | [] -> false
+               | _ :: _ -> true)
+| OBool b -> b
+| OInt z0 -> negb (Z.eqb z0 Z0)
+| _ -> false
+
+(** val has_next : state -> z -> state * out **)
+
+let has_next s n0 =
+  let (s', o) = peek_int s (Z.sub n0 (Zpos XH)) in
+  (match o with
+   | OExc e -> (s', (OExc e))
+   | _ -> (s', (OBool (truthy o))))
+
+(** val forward_pos : state -> z -> state * out **)
+
+let forward_pos s j =
+  let s1 = set_cursor s (Z.add s.cursor j) in
+  getitem_slice s1 (Some (Z.sub s1.cursor j)) (Some s1.cursor)
+
+(** val backward_pos : state -> z -> state * out **)
+
+let backward_pos s j =
+  if Z.ltb (Z.sub s.cursor j) Z0
+  then (s, (OExc AssertionError0))
+  else let s1 = set_cursor s (Z.sub s.cursor j) in
+       getitem_slice s1 (Some s1.cursor) (Some (Z.add s1.cursor j))
+
+(** val forward : state -> z -> state * out **)
+
+let forward s j =
+  if Z.ltb j Z0 then backward_pos s (Z.opp j) else forward_pos s j
+
+(** val backward : state -> z -> state * out **)
+
+let backward s j =
+  if Z.ltb j Z0 then forward_pos s (Z.opp j) else backward_pos s j
+
+(** val is_prefix : z list -> z list -> bool **)
+
+let rec is_prefix p l =
+  match p with
+  | [] -> true
+  | x :: p' ->
+    (match l with
+     | [] -> false
+     | y :: l' -> (&&) (Z.eqb x y) (is_prefix p' l'))
+
+(** val is_suffix : z list -> z list -> bool **)
+
+let is_suffix p l =
+  is_prefix (rev p) (rev l)
+
+(** val starts_with0 : state -> z list -> state * out **)
+
+let starts_with0 s p =
+  let (s', o) = peek_range s Z0 (Z.of_nat (length p)) in
+  (match o with
+   | OItems l -> (s', (OBool (is_prefix p l)))
+   | OExc e -> (s', (OExc e))
+   | _ -> (s', (OExc AttributeError)))
+
+(** val ends_with : state -> z list -> state * out **)
+
+let ends_with s p =
+  let (s', o) = peek_range s (Z.opp (Z.of_nat (length p))) Z0 in
+  (match o with
+   | OItems l -> (s', (OBool (is_suffix p l)))
+   | OExc e -> (s', (OExc e))
+   | _ -> (s', (OExc AttributeError)))
+
+(** val pred : z -> z -> bool **)
+
+let pred k x =
+  if Z.leb Z0 k then Z.eqb x k else negb (Z.eqb x (Z.opp k))
+
+(** val pred_none : z -> bool **)
+
+let pred_none k =
+  Z.ltb k Z0
+
+(** val cond_holds : z -> out -> bool **)
+
+let cond_holds k = function
+| OItem x -> pred k x
+| _ -> pred_none k
+
+(** val scan :
+    nat -> state -> z -> z list -> z -> ((state * exn option) * z list) * z **)
+
+let rec scan fuel s k acc cnt =
+  match fuel with
+  | O -> (((s, (Some OutOfFuel0)), acc), cnt)
+  | S f ->
+    let (s1, o) = has_next s (Zpos XH) in
+    (match o with
+     | OBool b ->
+       if b
+       then let (s2, pk) = peek_int s1 Z0 in
+            (match pk with
+             | OExc e -> (((s2, (Some e)), acc), cnt)
+             | _ ->
+               if cond_holds k pk
+               then (((s2, None), acc), cnt)
+               else let (s3, o0) = forward s2 (Zpos XH) in
+                    (match o0 with
+                     | OItems l ->
+                       scan f s3 k (app acc l) (Z.add cnt (Zpos XH))
+                     | OExc e -> (((s3, (Some e)), acc), cnt)
+                     | _ -> (((s3, (Some AttributeError)), acc), cnt)))
+       else (((s1, None), acc), cnt)
+     | OExc e -> (((s1, (Some e)), acc), cnt)
+     | _ ->
+       let (s2, pk) = peek_int s1 Z0 in
+       (match pk with
+        | OExc e -> (((s2, (Some e)), acc), cnt)
+        | _ ->
+          if cond_holds k pk
+          then (((s2, None), acc), cnt)
+          else let (s3, o0) = forward s2 (Zpos XH) in
+               (match o0 with
+                | OItems l -> scan f s3 k (app acc l) (Z.add cnt (Zpos XH))
+                | OExc e -> (((s3, (Some e)), acc), cnt)
+                | _ -> (((s3, (Some AttributeError)), acc), cnt))))
+
+(** val scan_fuel : state -> nat **)
+
+let scan_fuel s =
+  S (S (length s.items))
+
+(** val forward_until : state -> z -> state * out **)
+
+let forward_until s k =
+  let (s0, o) = peek_int s Z0 in
+  (match o with
+   | OExc e -> (s0, (OExc e))
+   | _ ->
+     let (p, _) = scan (scan_fuel s0) s0 k [] Z0 in
+     let (p0, acc) = p in
+     let (s1, o0) = p0 in
+     (match o0 with
+      | Some e -> (s1, (OExc e))
+      | None -> (s1, (OItems acc))))
+
+(** val list_eqb : z list -> z list -> bool **)
+
+let rec list_eqb a b =
+  match a with
+  | [] -> (match b with
+           | [] -> true
+           | _ :: _ -> false)
+  | x :: a' ->
+    (match b with
+     | [] -> false
+     | y :: b' -> (&&) (Z.eqb x y) (list_eqb a' b'))
+
+(** val num_forward_until : state -> z -> state * out **)
+
+let num_forward_until s k =
+  let (p, cnt) = scan (scan_fuel s) s k [] Z0 in
+  let (p0, acc) = p in
+  let (s1, o) = p0 in
+  (match o with
+   | Some e -> (s1, (OExc e))
+   | None ->
+     let (s2, o0) = backward s1 cnt in
+     (match o0 with
+      | OItems l ->
+        if list_eqb l acc
+        then (s2, (OInt cnt))
+        else (s2, (OExc AssertionError0))
+      | OExc e -> (s2, (OExc e))
+      | _ -> (s2, (OExc AssertionError0))))
+
+type op =
+| Next
+| HasNext of z
+| Peek of z
+| PeekR of z * z
+| Forward of z
+| Backward of z
+| Slice of z option * z option
+| Getitem of z
+| Startswith of z list
+| Endswith of z list
+| ForwardUntil of z
+| NumForwardUntil of z
+| Position
+
+(** val step : state -> op -> state * out **)
+
+let step s = function
+| Next -> next_raw s
+| HasNext n0 -> has_next s n0
+| Peek j -> peek_int s j
+| PeekR (a, b) -> peek_range s a b
+| Forward j -> forward s j
+| Backward j -> backward s j
+| Slice (lo, hi) -> getitem_slice s lo hi
+| Getitem k -> getitem_int s k
+| Startswith p -> starts_with0 s p
+| Endswith p -> ends_with s p
+| ForwardUntil k -> forward_until s k
+| NumForwardUntil k -> num_forward_until s k
+| Position -> (s, (OInt s.cursor))
+
+(** val opt_of : z -> z -> z option **)
+
+let opt_of flag v =
+  if Z.eqb flag Z0 then None else Some v
+
+(** val decode_ops : nat -> z list -> op list **)
+
+let rec decode_ops fuel l =
+  match fuel with
+  | O -> []
+  | S f ->
+    (match l with
+     | [] -> []
+     | z0 :: r ->
+       (match z0 with
+        | Z0 -> Next :: (decode_ops f r)
+        | Zpos p ->
+          (match p with
+           | XI p0 ->
+             (match p0 with
+              | XI p1 ->
+                (match p1 with
+                 | XI _ -> []
+                 | XO p2 ->
+                   (match p2 with
+                    | XH ->
+                      (match r with
+                       | [] -> []
+                       | k :: r0 -> (NumForwardUntil k) :: (decode_ops f r0))
+                    | _ -> [])
+                 | XH ->
+                   (match r with
+                    | [] -> []
+                    | k :: r0 -> (Getitem k) :: (decode_ops f r0)))
+              | XO p1 ->
+                (match p1 with
+                 | XI _ -> []
+                 | XO p2 ->
+                   (match p2 with
+                    | XH ->
+                      (match r with
+                       | [] -> []
+                       | m :: r0 ->
+                         (Endswith
+                           (firstn (Z.to_nat m) r0)) :: (decode_ops f
+                                                          (skipn (Z.to_nat m)
+                                                            r0)))
+                    | _ -> [])
+                 | XH ->
+                   (match r with
+                    | [] -> []
+                    | j :: r0 -> (Backward j) :: (decode_ops f r0)))
+              | XH ->
+                (match r with
+                 | [] -> []
+                 | a :: l0 ->
+                   (match l0 with
+                    | [] -> []
+                    | b :: r0 -> (PeekR (a, b)) :: (decode_ops f r0))))
+           | XO p0 ->
+             (match p0 with
+              | XI p1 ->
+                (match p1 with
+                 | XI _ -> []
+                 | XO p2 ->
+                   (match p2 with
+                    | XH ->
+                      (match r with
+                       | [] -> []
+                       | k :: r0 -> (ForwardUntil k) :: (decode_ops f r0))
+                    | _ -> [])
+                 | XH ->
+                   (match r with
+                    | [] -> []
+                    | fl :: l0 ->
+                      (match l0 with
+                       | [] -> []
+                       | lo :: l1 ->
+                         (match l1 with
+                          | [] -> []
+                          | fh :: l2 ->
+                            (match l2 with
+                             | [] -> []
+                             | hi :: r0 ->
+                               (Slice ((opt_of fl lo),
+                                 (opt_of fh hi))) :: (decode_ops f r0))))))
+              | XO p1 ->
+                (match p1 with
+                 | XI p2 ->
+                   (match p2 with
+                    | XH -> Position :: (decode_ops f r)
+                    | _ -> [])
+                 | XO p2 ->
+                   (match p2 with
+                    | XH ->
+                      (match r with
+                       | [] -> []
+                       | m :: r0 ->
+                         (Startswith
+                           (firstn (Z.to_nat m) r0)) :: (decode_ops f
+                                                          (skipn (Z.to_nat m)
+                                                            r0)))
+                    | _ -> [])
+                 | XH ->
+                   (match r with
+                    | [] -> []
+                    | j :: r0 -> (Forward j) :: (decode_ops f r0)))
+              | XH ->
+                (match r with
+                 | [] -> []
+                 | j :: r0 -> (Peek j) :: (decode_ops f r0)))
+           | XH ->
+             (match r with
+              | [] -> []
+              | n0 :: r0 -> (HasNext n0) :: (decode_ops f r0)))
+        | Zneg _ -> []))
+
+(** val exn_code : exn -> z **)
+
+let exn_code = function
+| StopIteration0 -> Zpos XH
+| IndexError -> Zpos (XO XH)
+| AssertionError0 -> Zpos (XI XH)
+| AttributeError -> Zpos (XO (XO XH))
+| OutOfFuel0 -> Zpos (XI (XO XH))
+
+(** val encode_out : out -> z list **)
+
+let encode_out = function
+| OItem x -> (Zpos XH) :: (x :: [])
+| ONone -> (Zpos (XO XH)) :: []
+| OItems l -> (Zpos (XI XH)) :: ((Z.of_nat (length l)) :: l)
+| OBool b -> (Zpos (XO (XO XH))) :: ((if b then Zpos XH else Z0) :: [])
+| OInt z0 -> (Zpos (XI (XO XH))) :: (z0 :: [])
+| OExc e -> (Zpos (XO (XI XH))) :: ((exn_code e) :: [])
+
+(** val run_enc : state -> op list -> z list **)
+
+let rec run_enc s = function
+| [] -> []
+| o :: r ->
+  let (s', x) = step s o in
+  app (encode_out x)
+    (app (s'.cursor :: ((Z.of_nat s'.mat) :: [])) (run_enc s' r))
 
 (** val run_buf : z list -> z list **)
 
-let run_buf _ =
-  []
+let run_buf = function
+| [] -> []
+| n0 :: r ->
+  let its = firstn (Z.to_nat n0) r in
+  let code = skipn (Z.to_nat n0) r in
+  run_enc (init_state its) (decode_ops (length code) code)
+
+type pstr = z list
+
+(** val pstr_eqb : pstr -> pstr -> bool **)
+
+let rec pstr_eqb a b =
+  match a with
+  | [] -> (match b with
+           | [] -> true
+           | _ :: _ -> false)
+  | x :: a' ->
+    (match b with
+     | [] -> false
+     | y :: b' -> (&&) (Z.eqb x y) (pstr_eqb a' b'))
+
+(** val zlen : 'a1 list -> z **)
+
+let zlen l =
+  Z.of_nat (length l)
+
+(** val is_space_char : z -> bool **)
+
+let is_space_char c =
+  (||)
+    ((||)
+      ((||)
+        ((||)
+          ((||)
+            ((||)
+              ((||)
+                ((||)
+                  ((||)
+                    ((||)
+                      ((&&) (Z.leb (Zpos (XI (XO (XO XH)))) c)
+                        (Z.leb c (Zpos (XI (XO (XI XH))))))
+                      ((&&) (Z.leb (Zpos (XO (XO (XI (XI XH))))) c)
+                        (Z.leb c (Zpos (XO (XO (XO (XO (XO XH)))))))))
+                    (Z.eqb c (Zpos (XI (XO (XI (XO (XO (XO (XO XH))))))))))
+                  (Z.eqb c (Zpos (XO (XO (XO (XO (XO (XI (XO XH))))))))))
+                (Z.eqb c (Zpos (XO (XO (XO (XO (XO (XO (XO (XI (XO (XI (XI
+                  (XO XH)))))))))))))))
+              ((&&)
+                (Z.leb (Zpos (XO (XO (XO (XO (XO (XO (XO (XO (XO (XO (XO (XO
+                  (XO XH)))))))))))))) c)
+                (Z.leb c (Zpos (XO (XI (XO (XI (XO (XO (XO (XO (XO (XO (XO
+                  (XO (XO XH)))))))))))))))))
+            (Z.eqb c (Zpos (XO (XO (XO (XI (XO (XI (XO (XO (XO (XO (XO (XO
+              (XO XH))))))))))))))))
+          (Z.eqb c (Zpos (XI (XO (XO (XI (XO (XI (XO (XO (XO (XO (XO (XO (XO
+            XH))))))))))))))))
+        (Z.eqb c (Zpos (XI (XI (XI (XI (XO (XI (XO (XO (XO (XO (XO (XO (XO
+          XH))))))))))))))))
+      (Z.eqb c (Zpos (XI (XI (XI (XI (XI (XO (XI (XO (XO (XO (XO (XO (XO
+        XH))))))))))))))))
+    (Z.eqb c (Zpos (XO (XO (XO (XO (XO (XO (XO (XO (XO (XO (XO (XO (XI
+      XH)))))))))))))))
+
+(** val is_space : pstr -> bool **)
+
+let is_space s = match s with
+| [] -> false
+| _ :: _ -> forallb is_space_char s
+
+(** val starts_with1 : pstr -> pstr -> bool **)
+
+let rec starts_with1 s = function
+| [] -> true
+| y :: p' ->
+  (match s with
+   | [] -> false
+   | x :: s' -> (&&) (Z.eqb x y) (starts_with1 s' p'))
+
+(** val ends_with0 : pstr -> pstr -> bool **)
+
+let ends_with0 s p =
+  starts_with1 (rev s) (rev p)
+
+(** val py_join : pstr list -> pstr **)
+
+let py_join parts =
+  fold_left app parts []
+
+(** val norm_insert : z -> z -> z **)
+
+let norm_insert n0 i =
+  let i0 = if Z.ltb i Z0 then Z.add i n0 else i in
+  if Z.ltb i0 Z0 then Z0 else if Z.ltb n0 i0 then n0 else i0
+
+(** val insert_at : nat -> 'a1 -> 'a1 list -> 'a1 list **)
+
+let rec insert_at k x l =
+  match k with
+  | O -> x :: l
+  | S k' -> (match l with
+             | [] -> x :: []
+             | y :: t -> y :: (insert_at k' x t))
+
+(** val py_insert : z -> 'a1 -> 'a1 list -> 'a1 list **)
+
+let py_insert i x l =
+  insert_at (Z.to_nat (norm_insert (zlen l) i)) x l
+
+(** val py_index0 : ('a1 -> bool) -> 'a1 list -> nat option **)
+
+let rec py_index0 p = function
+| [] -> None
+| x :: t ->
+  if p x then Some O else option_map (fun x0 -> S x0) (py_index0 p t)
+
+(** val py_remove : ('a1 -> bool) -> 'a1 list -> 'a1 list option **)
+
+let rec py_remove p = function
+| [] -> None
+| x :: t ->
+  if p x then Some t else option_map (fun x0 -> x :: x0) (py_remove p t)
+
+(** val pop_at : nat -> 'a1 list -> ('a1 * 'a1 list) option **)
+
+let rec pop_at k = function
+| [] -> None
+| x :: t ->
+  (match k with
+   | O -> Some (x, t)
+   | S k' ->
+     (match pop_at k' t with
+      | Some p -> let (y, t') = p in Some (y, (x :: t'))
+      | None -> None))
+
+(** val py_pop : z -> 'a1 list -> ('a1 * 'a1 list) option **)
+
+let py_pop i l =
+  let n0 = zlen l in
+  if Z.eqb n0 Z0
+  then None
+  else let j = if Z.ltb i Z0 then Z.add i n0 else i in
+       if (||) (Z.ltb j Z0) (Z.leb n0 j) then None else pop_at (Z.to_nat j) l
+
+(** val py_getitem : z -> 'a1 list -> 'a1 option **)
+
+let py_getitem i l =
+  let n0 = zlen l in
+  let j = if Z.ltb i Z0 then Z.add i n0 else i in
+  if (||) (Z.ltb j Z0) (Z.leb n0 j) then None else nth_error l (Z.to_nat j)
+
+(** val clamp_index : z -> z -> z **)
+
+let clamp_index n0 v =
+  let v0 = if Z.ltb v Z0 then Z.add v n0 else v in
+  if Z.ltb v0 Z0 then Z0 else if Z.ltb n0 v0 then n0 else v0
+
+(** val py_slice0 : z option -> z option -> 'a1 list -> 'a1 list **)
+
+let py_slice0 lo hi l =
+  let n0 = zlen l in
+  let start = match lo with
+              | Some v -> clamp_index n0 v
+              | None -> Z0 in
+  let stop = match hi with
+             | Some v -> clamp_index n0 v
+             | None -> n0 in
+  if Z.ltb start stop
+  then firstn (Z.to_nat (Z.sub stop start)) (skipn (Z.to_nat start) l)
+  else []
+
+type group = bool * pstr
+
+(** val open_of : bool -> z **)
+
+let open_of = function
+| true -> Zpos (XI (XI (XO (XI (XI (XO XH))))))
+| false -> Zpos (XI (XI (XO (XI (XI (XI XH))))))
+
+(** val close_of : bool -> z **)
+
+let close_of = function
+| true -> Zpos (XI (XO (XI (XI (XI (XO XH))))))
+| false -> Zpos (XI (XO (XI (XI (XI (XI XH))))))
+
+(** val render : group -> pstr **)
+
+let render g =
+  (open_of (fst g)) :: (app (snd g) ((close_of (fst g)) :: []))
+
+type item =
+| IG of group
+| IW of pstr
+
+(** val render_item : item -> pstr **)
+
+let render_item = function
+| IG g -> render g
+| IW s -> s
+
+(** val item_eqb : item -> item -> bool **)
+
+let item_eqb a b =
+  pstr_eqb (render_item a) (render_item b)
+
+type arg =
+| AG of group
+| AS of pstr
+
+(** val parse_kind : bool -> pstr -> group option **)
+
+let parse_kind k s =
+  if (&&) (starts_with1 s ((open_of k) :: []))
+       (ends_with0 s ((close_of k) :: []))
+  then Some (k, (py_slice0 (Some (Zpos XH)) (Some (Zneg XH)) s))
+  else None
+
+(** val parse_group : pstr -> group option **)
+
+let parse_group s =
+  match parse_kind true s with
+  | Some g -> Some g
+  | None -> parse_kind false s
+
+(** val coerce : arg -> item option **)
+
+let coerce = function
+| AG g -> Some (IG g)
+| AS s ->
+  if is_space s
+  then Some (IW s)
+  else (match parse_group s with
+        | Some g -> Some (IG g)
+        | None -> None)
+
+type state0 = group list * item list
+
+type out0 =
+| ONone0
+| OVal of item
+| OArgs of state0
+| OBool0 of bool
+| ETypeError
+| EValueError
+| EIndexError
+
+type op0 =
+| OpAppend of arg
+| OpExtend of arg list
+| OpInsert of z * arg
+| OpRemove of arg
+| OpPop of z option
+| OpReverse
+| OpClear
+| OpGet of z
+| OpSlice of z option * z option
+| OpContains of arg
+
+(** val empty_state : state0 **)
+
+let empty_state =
+  ([], [])
+
+(** val m_insert : state0 -> z -> arg -> state0 * out0 **)
+
+let m_insert st i a =
+  match coerce a with
+  | Some it ->
+    let (lst, all) = st in
+    let n0 = zlen lst in
+    let i0 = if Z.ltb i Z0 then Z.max Z0 (Z.add n0 i) else Z.min i n0 in
+    let lst1 = match it with
+               | IG g -> py_insert i0 g lst
+               | IW _ -> lst in
+    if Z.leb (zlen lst1) (Zpos XH)
+    then ((lst1, (app all (it :: []))), ONone0)
+    else if Z.eqb i0 Z0
+         then ((lst1, (py_insert Z0 it all)), ONone0)
+         else (match py_getitem (Z.sub i0 (Zpos XH)) lst1 with
+               | Some before ->
+                 (match py_index0 (fun x -> item_eqb x (IG before)) all with
+                  | Some j ->
+                    ((lst1,
+                      (py_insert (Z.add (Z.of_nat j) (Zpos XH)) it all)),
+                      ONone0)
+                  | None -> ((lst1, all), EValueError))
+               | None -> ((lst1, all), EIndexError))
+  | None -> (st, ETypeError)
+
+(** val m_append : state0 -> arg -> state0 * out0 **)
+
+let m_append st a =
+  m_insert st (zlen (fst st)) a
+
+(** val m_extend : state0 -> arg list -> state0 * out0 **)
+
+let rec m_extend st = function
+| [] -> (st, ONone0)
+| a :: t ->
+  let (st1, o) = m_append st a in
+  (match o with
+   | ONone0 -> m_extend st1 t
+   | x -> (st1, x))
+
+(** val m_remove : state0 -> arg -> state0 * out0 **)
+
+let m_remove st a =
+  match coerce a with
+  | Some it ->
+    let (lst, all) = st in
+    (match py_remove (fun x -> item_eqb x it) all with
+     | Some all1 ->
+       (match py_remove (fun g -> item_eqb (IG g) it) lst with
+        | Some lst1 -> ((lst1, all1), ONone0)
+        | None -> ((lst, all1), EValueError))
+     | None -> (st, EValueError))
+  | None -> (st, ETypeError)
+
+(** val m_pop : state0 -> z option -> state0 * out0 **)
+
+let m_pop st = function
+| Some i0 ->
+  let (lst, all) = st in
+  (match py_pop i0 lst with
+   | Some p ->
+     let (g, lst1) = p in
+     (match py_index0 (fun x -> item_eqb x (IG g)) all with
+      | Some j ->
+        (match py_pop (Z.of_nat j) all with
+         | Some p0 -> let (it, all1) = p0 in ((lst1, all1), (OVal it))
+         | None -> ((lst1, all), EIndexError))
+      | None -> ((lst1, all), EValueError))
+   | None -> (st, EIndexError))
+| None -> (st, ETypeError)
+
+(** val m_new : arg list -> state0 * out0 **)
+
+let m_new l =
+  m_extend empty_state l
+
+(** val m_contains : state0 -> arg -> bool **)
+
+let m_contains st = function
+| AG g -> existsb (fun x -> item_eqb (IG x) (IG g)) (fst st)
+| AS s -> existsb (fun g -> pstr_eqb s (snd g)) (fst st)
+
+(** val m_step : state0 -> op0 -> state0 * out0 **)
+
+let m_step st = function
+| OpAppend a -> m_append st a
+| OpExtend l -> m_extend st l
+| OpInsert (i, a) -> m_insert st i a
+| OpRemove a -> m_remove st a
+| OpPop i -> m_pop st i
+| OpReverse -> (((rev (fst st)), (rev (snd st))), ONone0)
+| OpClear -> (empty_state, ONone0)
+| OpGet i ->
+  (match py_getitem i (fst st) with
+   | Some g -> (st, (OVal (IG g)))
+   | None -> (st, EIndexError))
+| OpSlice (lo, hi) ->
+  let (st', e) = m_new (map (fun x -> AG x) (py_slice0 lo hi (fst st))) in
+  (match e with
+   | ONone0 -> (st, (OArgs st'))
+   | _ -> (st, e))
+| OpContains a -> (st, (OBool0 (m_contains st a)))
+
+(** val m_str : state0 -> pstr **)
+
+let m_str st =
+  py_join (map render (fst st))
+
+(** val m_len : state0 -> z **)
+
+let m_len st =
+  zlen (fst st)
+
+(** val m_run : state0 -> op0 list -> (state0 * out0) list **)
+
+let rec m_run st = function
+| [] -> []
+| o :: t -> let r = m_step st o in r :: (m_run (fst r) t)
+
+(** val take_str : z list -> (pstr * z list) option **)
+
+let take_str = function
+| [] -> None
+| n0 :: rest ->
+  if (||) (Z.ltb n0 Z0) (Z.ltb (zlen rest) n0)
+  then None
+  else Some ((firstn (Z.to_nat n0) rest), (skipn (Z.to_nat n0) rest))
+
+(** val take_arg : z list -> (arg * z list) option **)
+
+let take_arg = function
+| [] -> None
+| z0 :: rest ->
+  (match z0 with
+   | Z0 ->
+     (match rest with
+      | [] -> None
+      | k :: rest0 ->
+        (match take_str rest0 with
+         | Some p ->
+           let (s, rest') = p in Some ((AG ((negb (Z.eqb k Z0)), s)), rest')
+         | None -> None))
+   | Zpos p ->
+     (match p with
+      | XH ->
+        (match take_str rest with
+         | Some p0 -> let (s, rest') = p0 in Some ((AS s), rest')
+         | None -> None)
+      | _ -> None)
+   | Zneg _ -> None)
+
+(** val take_args : nat -> z list -> (arg list * z list) option **)
+
+let rec take_args n0 inp =
+  match n0 with
+  | O -> Some ([], inp)
+  | S n' ->
+    (match take_arg inp with
+     | Some p ->
+       let (a, rest) = p in
+       (match take_args n' rest with
+        | Some p0 -> let (l, rest') = p0 in Some ((a :: l), rest')
+        | None -> None)
+     | None -> None)
+
+(** val take_arglist : z list -> (arg list * z list) option **)
+
+let take_arglist = function
+| [] -> None
+| n0 :: rest -> if Z.ltb n0 Z0 then None else take_args (Z.to_nat n0) rest
+
+(** val take_optz : z list -> (z option * z list) option **)
+
+let take_optz = function
+| [] -> None
+| z0 :: rest ->
+  (match z0 with
+   | Z0 -> Some (None, rest)
+   | Zpos p ->
+     (match p with
+      | XH ->
+        (match rest with
+         | [] -> None
+         | v :: rest0 -> Some ((Some v), rest0))
+      | _ -> None)
+   | Zneg _ -> None)
+
+(** val take_op : z list -> (op0 * z list) option **)
+
+let take_op = function
+| [] -> None
+| z0 :: rest ->
+  (match z0 with
+   | Z0 ->
+     (match take_arg rest with
+      | Some p -> let (a, r) = p in Some ((OpAppend a), r)
+      | None -> None)
+   | Zpos p ->
+     (match p with
+      | XI p0 ->
+        (match p0 with
+         | XI p1 -> (match p1 with
+                     | XH -> Some (OpClear, rest)
+                     | _ -> None)
+         | XO p1 ->
+           (match p1 with
+            | XI _ -> None
+            | XO p2 ->
+              (match p2 with
+               | XH ->
+                 (match take_optz rest with
+                  | Some p3 ->
+                    let (lo, r) = p3 in
+                    (match take_optz r with
+                     | Some p4 ->
+                       let (hi, r') = p4 in Some ((OpSlice (lo, hi)), r')
+                     | None -> None)
+                  | None -> None)
+               | _ -> None)
+            | XH -> Some ((OpPop None), rest))
+         | XH ->
+           (match take_arg rest with
+            | Some p1 -> let (a, r) = p1 in Some ((OpRemove a), r)
+            | None -> None))
+      | XO p0 ->
+        (match p0 with
+         | XI p1 ->
+           (match p1 with
+            | XI _ -> None
+            | XO p2 ->
+              (match p2 with
+               | XH ->
+                 (match take_arg rest with
+                  | Some p3 -> let (a, r) = p3 in Some ((OpContains a), r)
+                  | None -> None)
+               | _ -> None)
+            | XH -> Some (OpReverse, rest))
+         | XO p1 ->
+           (match p1 with
+            | XI _ -> None
+            | XO p2 ->
+              (match p2 with
+               | XH ->
+                 (match rest with
+                  | [] -> None
+                  | i :: rest0 -> Some ((OpGet i), rest0))
+               | _ -> None)
+            | XH ->
+              (match rest with
+               | [] -> None
+               | i :: rest0 -> Some ((OpPop (Some i)), rest0)))
+         | XH ->
+           (match rest with
+            | [] -> None
+            | i :: rest0 ->
+              (match take_arg rest0 with
+               | Some p1 -> let (a, r) = p1 in Some ((OpInsert (i, a)), r)
+               | None -> None)))
+      | XH ->
+        (match take_arglist rest with
+         | Some p0 -> let (l, r) = p0 in Some ((OpExtend l), r)
+         | None -> None))
+   | Zneg _ -> None)
+
+(** val take_ops : nat -> z list -> op0 list option **)
+
+let rec take_ops n0 inp =
+  match n0 with
+  | O -> (match inp with
+          | [] -> Some []
+          | _ :: _ -> None)
+  | S n' ->
+    (match take_op inp with
+     | Some p ->
+       let (o, rest) = p in
+       (match take_ops n' rest with
+        | Some l -> Some (o :: l)
+        | None -> None)
+     | None -> None)
+
+(** val enc_str : pstr -> z list **)
+
+let enc_str s =
+  (zlen s) :: s
+
+(** val enc_item : item -> z list **)
+
+let enc_item it =
+  (match it with
+   | IG _ -> Z0
+   | IW _ -> Zpos XH) :: (enc_str (render_item it))
+
+(** val enc_state : state0 -> z list **)
+
+let enc_state st =
+  app (enc_str (m_str st))
+    (app ((m_len st) :: [])
+      (app
+        ((zlen (fst st)) :: (flat_map (fun g -> enc_str (render g)) (fst st)))
+        ((zlen (snd st)) :: (flat_map enc_item (snd st)))))
+
+(** val enc_out : out0 -> z list **)
+
+let enc_out = function
+| ONone0 -> Z0 :: []
+| OVal it -> (Zpos XH) :: (enc_item it)
+| OArgs st -> (Zpos (XO XH)) :: (enc_state st)
+| OBool0 b -> (Zpos (XI XH)) :: ((if b then Zpos XH else Z0) :: [])
+| ETypeError -> (Zpos (XO (XI (XO XH)))) :: []
+| EValueError -> (Zpos (XI (XI (XO XH)))) :: []
+| EIndexError -> (Zpos (XO (XO (XI XH)))) :: []
+
+(** val enc_result : (state0 * out0) -> z list **)
+
+let enc_result r =
+  app (enc_out (snd r)) (enc_state (fst r))
 
 (** val run_args : z list -> z list **)
 
-let run_args _ =
-  []
+let run_args inp =
+  match take_arglist inp with
+  | Some p ->
+    let (init, l) = p in
+    (match l with
+     | [] -> (Zneg XH) :: []
+     | n0 :: rest ->
+       if Z.ltb n0 Z0
+       then (Zneg XH) :: []
+       else (match take_ops (Z.to_nat n0) rest with
+             | Some ops ->
+               let r0 = m_new init in
+               app (enc_result r0) (flat_map enc_result (m_run (fst r0) ops))
+             | None -> (Zneg XH) :: []))
+  | None -> (Zneg XH) :: []
+
+(** val str_isspace : str -> bool **)
+
+let str_isspace s = match s with
+| [] -> false
+| _ :: _ -> forallb is_ws s
+
+(** val unwrap : expr -> expr **)
+
+let unwrap e = match e with
+| EText t -> ERaw (t.ttext, t.tpos)
+| _ -> e
+
+(** val is_blank : expr -> bool **)
+
+let is_blank = function
+| EText t -> str_isspace t.ttext
+| ERaw (s, _) -> str_isspace s
+| EStr s -> str_isspace s
+| _ -> false
+
+(** val clean : expr list -> expr list **)
+
+let clean l =
+  filter (fun x -> negb (is_blank x)) (map unwrap l)
+
+(** val is_texexpr : expr -> bool **)
+
+let is_texexpr = function
+| ERaw (_, _) -> false
+| EStr _ -> false
+| _ -> true
+
+(** val is_env_or_cmd : expr -> bool **)
+
+let is_env_or_cmd = function
+| EText _ -> false
+| ERaw (_, _) -> false
+| EStr _ -> false
+| _ -> true
+
+(** val is_strlike : expr -> bool **)
+
+let is_strlike = function
+| EText _ -> true
+| ERaw (_, _) -> true
+| EStr _ -> true
+| _ -> false
+
+(** val expr_contents : expr -> expr list **)
+
+let rec expr_contents e =
+  let over_args =
+    let rec over_args = function
+    | [] -> []
+    | a :: l' -> app (expr_contents a) (over_args l')
+    in over_args
+  in
+  (match e with
+   | EText t -> clean ((ERaw (t.ttext, t.tpos)) :: [])
+   | ECmd (_, a, b, _) -> clean (app (over_args a) b)
+   | ENamed (_, a, b, _) -> clean (app (over_args a) b)
+   | EMath (_, b, _) -> clean b
+   | EGroup (_, b, _) -> clean b
+   | ERoot b -> clean b
+   | _ -> [])
+
+(** val expr_all : expr -> expr list **)
+
+let expr_all = function
+| EText t -> (ERaw (t.ttext, t.tpos)) :: []
+| ECmd (_, a, b, _) -> app (flat_map expr_contents a) b
+| ENamed (_, a, b, _) -> app (flat_map expr_contents a) b
+| EMath (_, b, _) -> b
+| EGroup (_, b, _) -> b
+| ERoot b -> b
+| _ -> []
+
+(** val edepth : expr -> nat **)
+
+let rec edepth e =
+  let mx =
+    let rec mx = function
+    | [] -> O
+    | x :: l' -> Nat.max (edepth x) (mx l')
+    in mx
+  in
+  (match e with
+   | ECmd (_, a, b, _) -> S (Nat.max (mx a) (mx b))
+   | ENamed (_, a, b, _) -> S (Nat.max (mx a) (mx b))
+   | EMath (_, b, _) -> S (mx b)
+   | EGroup (_, b, _) -> S (mx b)
+   | ERoot b -> S (mx b)
+   | _ -> O)
+
+type path = nat list
+
+type item0 = path * expr
+
+(** val wrap_from : path -> nat -> expr list -> item0 list **)
+
+let rec wrap_from p i = function
+| [] -> []
+| x :: l' -> ((app p (i :: [])), x) :: (wrap_from p (S i) l')
+
+(** val contents : item0 -> item0 list **)
+
+let contents n0 =
+  wrap_from (fst n0) O (expr_contents (snd n0))
+
+(** val children : item0 -> item0 list **)
+
+let children n0 =
+  filter (fun it -> is_env_or_cmd (snd it)) (contents n0)
+
+(** val node_all : item0 -> expr list option **)
+
+let node_all n0 =
+  if forallb is_texexpr (expr_all (snd n0))
+  then Some (expr_all (snd n0))
+  else None
+
+(** val parent_path : path -> path **)
+
+let parent_path =
+  removelast
+
+(** val node_getitem : item0 -> z -> item0 option **)
+
+let node_getitem n0 i =
+  let l = contents n0 in
+  let len = Z.of_nat (length l) in
+  let j = if Z.ltb i Z0 then Z.add i len else i in
+  if Z.ltb j Z0 then None else nth_error l (Z.to_nat j)
+
+(** val descendants_f : nat -> item0 -> item0 list **)
+
+let rec descendants_f fuel n0 =
+  match fuel with
+  | O -> []
+  | S f -> app (contents n0) (flat_map (descendants_f f) (children n0))
+
+(** val descendants : item0 -> item0 list **)
+
+let descendants n0 =
+  descendants_f (S (edepth (snd n0))) n0
+
+(** val text_f : nat -> item0 -> item0 list **)
+
+let rec text_f fuel n0 =
+  match fuel with
+  | O -> []
+  | S f ->
+    flat_map (fun it ->
+      if is_strlike (snd it) then it :: [] else text_f f it) (contents n0)
+
+(** val text : item0 -> item0 list **)
+
+let text n0 =
+  text_f (S (edepth (snd n0))) n0
+
+type query =
+| QName of str
+| QList of str list
+
+(** val c_lbrace : n **)
+
+let c_lbrace =
+  Npos (XI (XI (XO (XI (XI (XI XH))))))
+
+(** val c_lbracket : n **)
+
+let c_lbracket =
+  Npos (XI (XI (XO (XI (XI (XO XH))))))
+
+(** val s_text : str **)
+
+let s_text =
+  (Npos (XO (XO (XI (XO (XI (XI XH))))))) :: ((Npos (XI (XO (XI (XO (XO (XI
+    XH))))))) :: ((Npos (XO (XO (XO (XI (XI (XI XH))))))) :: ((Npos (XO (XO
+    (XI (XO (XI (XI XH))))))) :: [])))
+
+(** val s_roottex : str **)
+
+let s_roottex =
+  (Npos (XI (XI (XO (XI (XI (XO XH))))))) :: ((Npos (XO (XO (XI (XO (XI (XI
+    XH))))))) :: ((Npos (XI (XO (XI (XO (XO (XI XH))))))) :: ((Npos (XO (XO
+    (XO (XI (XI (XI XH))))))) :: ((Npos (XI (XO (XI (XI (XI (XO
+    XH))))))) :: []))))
+
+(** val expr_name : expr -> str **)
+
+let expr_name = function
+| EText _ -> s_text
+| ECmd (n0, _, _, _) -> n0
+| ENamed (n0, _, _, _) -> n0
+| EMath (k, _, _) -> math_name k
+| EGroup (k, _, _) -> group_name k
+| ERoot _ -> s_roottex
+| _ -> []
+
+(** val expr_begin : expr -> str **)
+
+let expr_begin = function
+| ENamed (n0, _, _, _) -> env_begin n0
+| EMath (k, _, _) -> math_begin k
+| EGroup (k, _, _) -> group_begin k
+| _ -> []
+
+(** val expr_end : expr -> str **)
+
+let expr_end = function
+| ENamed (n0, _, _, _) -> env_end n0
+| EMath (k, _, _) -> math_end k
+| EGroup (k, _, _) -> group_end k
+| _ -> []
+
+(** val expr_args : expr -> expr list **)
+
+let expr_args = function
+| ECmd (_, a, _, _) -> a
+| ENamed (_, a, _, _) -> a
+| _ -> []
+
+(** val expr_begin_args : expr -> str **)
+
+let expr_begin_args e =
+  app (expr_begin e) (estr_list (expr_args e))
+
+(** val query_has_brace : query -> bool **)
+
+let query_has_brace = function
+| QName s -> (||) (mem_N c_lbrace s) (mem_N c_lbracket s)
+| QList l -> (||) (mem_str (c_lbrace :: []) l) (mem_str (c_lbracket :: []) l)
+
+(** val texexpr_match : query -> expr -> bool **)
+
+let texexpr_match q e =
+  if query_has_brace q
+  then (match q with
+        | QName s -> str_eqb (estr e) s
+        | QList _ -> false)
+  else (match q with
+        | QName s -> str_eqb (expr_name e) s
+        | QList l -> mem_str (expr_name e) l)
+
+(** val texenv_match : query -> expr -> bool **)
+
+let texenv_match q e =
+  match q with
+  | QName s ->
+    if (||)
+         ((||)
+           ((||) (str_eqb s (expr_name e)) (str_eqb s (expr_begin_args e)))
+           (str_eqb s (expr_begin e))) (str_eqb s (expr_end e))
+    then true
+    else texexpr_match q e
+  | QList _ -> texexpr_match q e
+
+(** val match_item : query -> expr -> bool **)
+
+let match_item q e = match e with
+| EText _ -> texexpr_match q e
+| ERaw (_, _) -> false
+| EStr _ -> false
+| ECmd (_, _, _, _) -> texexpr_match q e
+| _ -> texenv_match q e
+
+(** val find_all : query -> item0 -> item0 list **)
+
+let find_all q n0 =
+  filter (fun it -> match_item q (snd it)) (descendants n0)
+
+(** val find0 : query -> item0 -> item0 option **)
+
+let find0 q n0 =
+  match find_all q n0 with
+  | [] -> None
+  | x :: _ -> Some x
+
+(** val count : query -> item0 -> nat **)
+
+let count q n0 =
+  length (find_all q n0)
+
+(** val instance_attrs : str list **)
+
+let instance_attrs =
+  ((Npos (XI (XO (XI (XO (XO (XI XH))))))) :: ((Npos (XO (XO (XO (XI (XI (XI
+    XH))))))) :: ((Npos (XO (XO (XO (XO (XI (XI XH))))))) :: ((Npos (XO (XI
+    (XO (XO (XI (XI XH))))))) :: [])))) :: (((Npos (XO (XO (XO (XO (XI (XI
+    XH))))))) :: ((Npos (XI (XO (XO (XO (XO (XI XH))))))) :: ((Npos (XO (XI
+    (XO (XO (XI (XI XH))))))) :: ((Npos (XI (XO (XI (XO (XO (XI
+    XH))))))) :: ((Npos (XO (XI (XI (XI (XO (XI XH))))))) :: ((Npos (XO (XO
+    (XI (XO (XI (XI XH))))))) :: [])))))) :: (((Npos (XI (XI (XO (XO (XO (XI
+    XH))))))) :: ((Npos (XO (XO (XO (XI (XO (XI XH))))))) :: ((Npos (XI (XO
+    (XO (XO (XO (XI XH))))))) :: ((Npos (XO (XI (XO (XO (XI (XI
+    XH))))))) :: ((Npos (XI (XI (XI (XI (XI (XO XH))))))) :: ((Npos (XO (XO
+    (XI (XO (XI (XI XH))))))) :: ((Npos (XI (XI (XI (XI (XO (XI
+    XH))))))) :: ((Npos (XI (XI (XI (XI (XI (XO XH))))))) :: ((Npos (XO (XO
+    (XI (XI (XO (XI XH))))))) :: ((Npos (XI (XO (XO (XI (XO (XI
+    XH))))))) :: ((Npos (XO (XI (XI (XI (XO (XI XH))))))) :: ((Npos (XI (XO
+    (XI (XO (XO (XI XH))))))) :: [])))))))))))) :: []))
+
+(** val is_real_attr : str -> bool **)
+
+let is_real_attr a =
+  (||) (mem_str a Tables.dir_texnode) (mem_str a instance_attrs)
+
+type attr_result =
+| AReal
+| AFound of item0 option
+
+(** val getattr : str -> item0 -> attr_result **)
+
+let getattr a n0 =
+  if is_real_attr a then AReal else AFound (find0 (QName a) n0)
+
+(** val enc_str0 : str -> z list **)
+
+let enc_str0 s =
+  (Z.of_nat (length s)) :: (map Z.of_N s)
+
+(** val enc_path : path -> z list **)
+
+let enc_path p =
+  (Z.of_nat (length p)) :: (map Z.of_nat p)
+
+(** val class_code : expr -> z **)
+
+let class_code = function
+| EText _ -> Z0
+| ERaw (_, _) -> Zpos XH
+| EStr _ -> Zpos (XO XH)
+| ECmd (_, _, _, _) -> Zpos (XI XH)
+| ENamed (_, _, _, _) -> Zpos (XO (XO XH))
+| EMath (k, _, _) ->
+  (match k with
+   | MInline -> Zpos (XI (XO XH))
+   | MDisplay -> Zpos (XO (XI XH))
+   | MParen -> Zpos (XI (XI XH))
+   | MBracket -> Zpos (XO (XO (XO XH))))
+| EGroup (k, _, _) ->
+  (match k with
+   | GBrace -> Zpos (XI (XO (XO XH)))
+   | GBracket -> Zpos (XO (XI (XO XH))))
+| ERoot _ -> Zpos (XI (XI (XO XH)))
+
+(** val epos : expr -> z **)
+
+let epos = function
+| EText t -> t.tpos
+| ERaw (_, p) -> p
+| EStr _ -> Z0
+| ECmd (_, _, _, p) -> p
+| ENamed (_, _, _, p) -> p
+| EMath (_, _, p) -> p
+| EGroup (_, _, p) -> p
+| ERoot _ -> Zneg XH
+
+(** val enc_expr : expr -> z list **)
+
+let enc_expr e =
+  (class_code e) :: ((epos e) :: (enc_str0 (estr e)))
+
+(** val enc_item0 : item0 -> z list **)
+
+let enc_item0 it =
+  if is_texexpr (snd it)
+  then (class_code (snd it)) :: ((epos (snd it)) :: (app (enc_path (fst it))
+                                                      (app
+                                                        (enc_path
+                                                          (parent_path
+                                                            (fst it)))
+                                                        (enc_str0
+                                                          (estr (snd it))))))
+  else enc_expr (snd it)
+
+(** val enc_list : ('a1 -> z list) -> 'a1 list -> z list **)
+
+let enc_list f l =
+  (Z.of_nat (length l)) :: (flat_map f l)
+
+(** val enc_opt_item : item0 option -> z list **)
+
+let enc_opt_item = function
+| Some it -> (Zpos XH) :: (enc_item0 it)
+| None -> Z0 :: []
+
+(** val enc_query : item0 -> query -> z list **)
+
+let enc_query n0 q =
+  app ((Zneg (XO (XI (XO (XO (XI (XI (XI (XI (XI
+    XH)))))))))) :: (enc_list (fun it -> enc_path (fst it)) (find_all q n0)))
+    (app (enc_opt_item (find0 q n0))
+      (app ((Z.of_nat (count q n0)) :: [])
+        (match q with
+         | QName s ->
+           (match getattr s n0 with
+            | AReal -> (Zpos (XO XH)) :: []
+            | AFound o -> enc_opt_item o)
+         | QList _ -> (Zpos (XI XH)) :: [])))
+
+(** val enc_node : query list -> item0 -> z list **)
+
+let enc_node qs n0 =
+  app ((Zneg (XO (XI (XO (XI (XO (XI (XI (XI (XI
+    XH)))))))))) :: (enc_path (fst n0)))
+    (app ((class_code (snd n0)) :: ((epos (snd n0)) :: []))
+      (app (enc_str0 (expr_name (snd n0)))
+        (app (enc_str0 (estr (snd n0)))
+          (app ((Zneg (XI (XI (XO (XI (XO (XI (XI (XI (XI
+            XH)))))))))) :: (enc_list enc_expr (expr_all (snd n0))))
+            (app ((Zneg (XO (XO (XI (XI (XO (XI (XI (XI (XI
+              XH)))))))))) :: ((match node_all n0 with
+                                | Some _ -> Zpos XH
+                                | None -> Z0) :: []))
+              (app ((Zneg (XI (XO (XI (XI (XO (XI (XI (XI (XI
+                XH)))))))))) :: (enc_list enc_item0 (contents n0)))
+                (app ((Zneg (XO (XI (XI (XI (XO (XI (XI (XI (XI
+                  XH)))))))))) :: (enc_list enc_item0 (children n0)))
+                  (app ((Zneg (XI (XI (XI (XI (XO (XI (XI (XI (XI
+                    XH)))))))))) :: (enc_list enc_item0 (descendants n0)))
+                    (app ((Zneg (XO (XO (XO (XO (XI (XI (XI (XI (XI
+                      XH)))))))))) :: (enc_list enc_item0 (text n0)))
+                      (app ((Zneg (XI (XO (XO (XO (XI (XI (XI (XI (XI
+                        XH)))))))))) :: (app
+                                          (enc_opt_item (node_getitem n0 Z0))
+                                          (app
+                                            (enc_opt_item
+                                              (node_getitem n0 (Zneg XH)))
+                                            (app
+                                              (enc_opt_item
+                                                (node_getitem n0 (Zpos XH)))
+                                              (enc_opt_item
+                                                (node_getitem n0 (Zneg (XO
+                                                  XH))))))))
+                        (flat_map (enc_query n0) qs)))))))))))
+
+(** val err_code : err -> z **)
+
+let err_code = function
+| EOFError -> Zpos XH
+| TypeError -> Zpos (XO XH)
+| AssertionError -> Zpos (XI XH)
+| StopIteration -> Zpos (XO (XO XH))
+| KeyError -> Zpos (XI (XO XH))
+| TokenizerError -> Zpos (XO (XI XH))
+| OutOfFuel -> Zpos (XI (XI XH))
+
+(** val take_str0 : z list -> str * z list **)
+
+let take_str0 = function
+| [] -> ([], [])
+| k :: l' -> ((map Z.to_N (firstn (Z.to_nat k) l')), (skipn (Z.to_nat k) l'))
+
+(** val take_strs : nat -> z list -> str list * z list **)
+
+let rec take_strs k l =
+  match k with
+  | O -> ([], l)
+  | S k' ->
+    let (s, l1) = take_str0 l in
+    let (ss, l2) = take_strs k' l1 in ((s :: ss), l2)
+
+(** val take_queries : nat -> z list -> query list * z list **)
+
+let rec take_queries k l =
+  match k with
+  | O -> ([], l)
+  | S k' ->
+    (match l with
+     | [] -> ([], [])
+     | kind :: l0 ->
+       if Z.eqb kind Z0
+       then let (s, r) = take_str0 l0 in
+            let q = QName s in
+            let (qs, l2) = take_queries k' r in ((q :: qs), l2)
+       else (match l0 with
+             | [] ->
+               let q = QList [] in
+               let l1 = [] in
+               let (qs, l2) = take_queries k' l1 in ((q :: qs), l2)
+             | m :: l0' ->
+               let (ss, r) = take_strs (Z.to_nat m) l0' in
+               let q = QList ss in
+               let (qs, l2) = take_queries k' r in ((q :: qs), l2)))
+
+(** val view_of_tree : query list -> expr -> z list **)
+
+let view_of_tree qs e =
+  let root = ([], e) in
+  flat_map (enc_node qs)
+    (root :: (filter (fun it -> is_texexpr (snd it)) (descendants root)))
 
 (** val run_view : z list -> z list **)
 
-let run_view _ =
-  []
+let run_view = function
+| [] -> (Zneg (XO XH)) :: []
+| strict :: l ->
+  (match l with
+   | [] -> (Zneg (XO XH)) :: []
+   | nq :: rest ->
+     let (qs, src) = take_queries (Z.to_nat nq) rest in
+     (match parse (map Z.to_N src) (negb (Z.eqb strict Z0)) [] with
+      | Ok e -> view_of_tree qs e
+      | Err er -> (Zneg XH) :: ((err_code er) :: [])))
 
-(** val run_edit : z list -> z list **)
+type eerr =
+| ETypeError0
+| EValueError0
+| EAssertionError
+| EIndexError0
+| EBadCase
 
-let run_edit _ =
-  []
+type 'a outcome =
+| Done of 'a
+| Raise of eerr
+
+(** val obind : 'a1 outcome -> ('a1 -> 'a2 outcome) -> 'a2 outcome **)
+
+let obind r f =
+  match r with
+  | Done a -> f a
+  | Raise e -> Raise e
+
+type step0 =
+| SArg of nat
+| SBody of nat
+
+type path0 = step0 list
+
+(** val step_eqb : step0 -> step0 -> bool **)
+
+let step_eqb a b =
+  match a with
+  | SArg i -> (match b with
+               | SArg j -> Nat.eqb i j
+               | SBody _ -> false)
+  | SBody i -> (match b with
+                | SArg _ -> false
+                | SBody j -> Nat.eqb i j)
+
+(** val path_eqb : path0 -> path0 -> bool **)
+
+let rec path_eqb p q =
+  match p with
+  | [] -> (match q with
+           | [] -> true
+           | _ :: _ -> false)
+  | a :: p' ->
+    (match q with
+     | [] -> false
+     | b :: q' -> (&&) (step_eqb a b) (path_eqb p' q'))
+
+(** val is_node : expr -> bool **)
+
+let is_node = function
+| EText _ -> false
+| ERaw (_, _) -> false
+| EStr _ -> false
+| _ -> true
+
+(** val args_of : expr -> expr list **)
+
+let args_of = function
+| ECmd (_, a, _, _) -> a
+| ENamed (_, a, _, _) -> a
+| _ -> []
+
+(** val body_of : expr -> expr list **)
+
+let body_of = function
+| ECmd (_, _, b, _) -> b
+| ENamed (_, _, b, _) -> b
+| EMath (_, b, _) -> b
+| EGroup (_, b, _) -> b
+| ERoot b -> b
+| _ -> []
+
+(** val set_body : expr -> expr list -> expr **)
+
+let set_body e b =
+  match e with
+  | ECmd (n0, a, _, p) -> ECmd (n0, a, b, p)
+  | ENamed (n0, a, _, p) -> ENamed (n0, a, b, p)
+  | EMath (k, _, p) -> EMath (k, b, p)
+  | EGroup (k, _, p) -> EGroup (k, b, p)
+  | ERoot _ -> ERoot b
+  | _ -> e
+
+(** val set_args_of : expr -> expr list -> expr **)
+
+let set_args_of e a =
+  match e with
+  | ECmd (n0, _, b, p) -> ECmd (n0, a, b, p)
+  | ENamed (n0, _, b, p) -> ENamed (n0, a, b, p)
+  | _ -> e
+
+(** val subst_nth : nat -> 'a1 -> 'a1 list -> 'a1 list **)
+
+let subst_nth i x l =
+  app (firstn i l) (x :: (skipn (S i) l))
+
+(** val splice : nat -> nat -> 'a1 list -> 'a1 list -> 'a1 list **)
+
+let splice i k new0 l =
+  app (firstn i l) (app new0 (skipn (add i k) l))
+
+(** val child : expr -> step0 -> expr option **)
+
+let child e = function
+| SArg i -> nth_error (args_of e) i
+| SBody i -> nth_error (body_of e) i
+
+(** val set_child : expr -> step0 -> expr -> expr **)
+
+let set_child e s c =
+  match s with
+  | SArg i -> set_args_of e (subst_nth i c (args_of e))
+  | SBody i -> set_body e (subst_nth i c (body_of e))
+
+(** val get : expr -> path0 -> expr option **)
+
+let rec get e = function
+| [] -> Some e
+| s :: p' -> (match child e s with
+              | Some c -> get c p'
+              | None -> None)
+
+(** val put : expr -> path0 -> expr -> expr option **)
+
+let rec put e p x =
+  match p with
+  | [] -> Some x
+  | s :: p' ->
+    (match child e s with
+     | Some c ->
+       (match put c p' x with
+        | Some c' -> Some (set_child e s c')
+        | None -> None)
+     | None -> None)
+
+(** val put_o : expr -> path0 -> expr -> expr outcome **)
+
+let put_o root p x =
+  match put root p x with
+  | Some r -> Done r
+  | None -> Raise EBadCase
+
+(** val is_ws_str : str -> bool **)
+
+let is_ws_str s = match s with
+| [] -> false
+| _ :: _ -> forallb is_ws s
+
+(** val is_ws_item : expr -> bool **)
+
+let is_ws_item = function
+| EText t -> is_ws_str t.ttext
+| ERaw (s, _) -> is_ws_str s
+| EStr s -> is_ws_str s
+| _ -> false
+
+(** val number_from : nat -> 'a1 list -> (nat * 'a1) list **)
+
+let rec number_from k = function
+| [] -> []
+| x :: l' -> (k, x) :: (number_from (S k) l')
+
+(** val cview : expr -> ((path0 * nat) * expr) list **)
+
+let rec cview e =
+  let own = fun b ->
+    map (fun ix -> (([], (fst ix)), (snd ix))) (number_from O b)
+  in
+  let go =
+    let rec go j = function
+    | [] -> []
+    | a :: l' ->
+      app
+        (map (fun it -> ((((SArg j) :: (fst (fst it))), (snd (fst it))),
+          (snd it))) (cview a)) (go (S j) l')
+    in go
+  in
+  let keep = filter (fun it -> negb (is_ws_item (snd it))) in
+  (match e with
+   | ECmd (_, a, b, _) -> keep (app (go O a) (own b))
+   | ENamed (_, a, b, _) -> keep (app (go O a) (own b))
+   | EMath (_, b, _) -> keep (own b)
+   | EGroup (_, b, _) -> keep (own b)
+   | ERoot b -> keep (own b)
+   | _ -> [])
+
+(** val resolve : expr -> path0 -> nat list -> (path0 * expr) option **)
+
+let rec resolve cur acc = function
+| [] -> Some (acc, cur)
+| k :: vp' ->
+  (match nth_error (cview cur) k with
+   | Some p0 ->
+     let (p1, x) = p0 in
+     let (p, i) = p1 in resolve x (app acc (app p ((SBody i) :: []))) vp'
+   | None -> None)
+
+(** val split_node_path : path0 -> (path0 * nat) option **)
+
+let split_node_path np =
+  match rev np with
+  | [] -> None
+  | s :: r -> (match s with
+               | SArg _ -> None
+               | SBody i -> Some ((rev r), i))
+
+(** val drop_args : path0 -> path0 **)
+
+let rec drop_args r = match r with
+| [] -> r
+| s :: r' -> (match s with
+              | SArg _ -> drop_args r'
+              | SBody _ -> r)
+
+(** val nav_parent : path0 -> path0 **)
+
+let nav_parent hp =
+  rev (drop_args (rev hp))
+
+(** val norm_index : nat -> z -> nat **)
+
+let norm_index len i =
+  if Z.ltb i Z0
+  then Z.to_nat (Z.max Z0 (Z.add (Z.of_nat len) i))
+  else Nat.min (Z.to_nat i) len
+
+(** val list_insert : z -> 'a1 -> 'a1 list -> 'a1 list **)
+
+let list_insert i x l =
+  let k = norm_index (length l) i in app (firstn k l) (x :: (skipn k l))
+
+(** val insert_seq : z -> 'a1 list -> 'a1 list -> 'a1 list **)
+
+let rec insert_seq i xs l =
+  match xs with
+  | [] -> l
+  | x :: xs' -> insert_seq (Z.add i (Zpos XH)) xs' (list_insert i x l)
+
+(** val index_of : ('a1 -> bool) -> 'a1 list -> nat option **)
+
+let rec index_of f = function
+| [] -> None
+| x :: l' ->
+  if f x
+  then Some O
+  else (match index_of f l' with
+        | Some k -> Some (S k)
+        | None -> None)
+
+(** val supports : expr -> bool **)
+
+let supports = function
+| ECmd (n0, _, _, _) -> str_eqb n0 s_item
+| _ -> true
+
+(** val eq_expr_item : expr -> expr -> bool **)
+
+let eq_expr_item x c = match c with
+| EText _ -> false
+| _ -> str_eqb (estr c) (estr x)
+
+(** val eq_node_item : expr -> expr -> bool **)
+
+let eq_node_item x c =
+  (&&) (is_node c) (str_eqb (estr c) (estr x))
+
+(** val expr_remove :
+    (expr -> expr -> bool) -> path0 -> expr -> path0 -> nat -> expr ->
+    (nat * expr) outcome **)
+
+let expr_remove eqf hpath h thp ti x =
+  if negb (supports h)
+  then Raise ETypeError0
+  else let idx =
+         if path_eqb hpath thp then Some ti else index_of (eqf x) (body_of h)
+       in
+       (match idx with
+        | Some k -> Done (k, (set_body h (splice k (S O) [] (body_of h))))
+        | None -> Raise EValueError0)
+
+(** val expr_insert : expr -> z -> expr list -> expr outcome **)
+
+let expr_insert h i new0 =
+  if negb (supports h)
+  then Raise ETypeError0
+  else Done (set_body h (insert_seq i new0 (body_of h)))
+
+(** val expr_append : expr -> expr list -> expr outcome **)
+
+let expr_append h new0 =
+  if negb (supports h)
+  then Raise ETypeError0
+  else Done (set_body h (app (body_of h) new0))
+
+(** val number_args : path0 -> nat -> expr list -> (path0 * expr) list **)
+
+let rec number_args pp j = function
+| [] -> []
+| a :: l' -> ((app pp ((SArg j) :: [])), a) :: (number_args pp (S j) l')
+
+(** val holders : path0 -> expr -> (path0 * expr) list **)
+
+let holders pp p =
+  app (number_args pp O (args_of p)) ((pp, p) :: [])
+
+(** val holds_object : path0 -> (path0 * expr) -> bool **)
+
+let holds_object thp ph =
+  path_eqb (fst ph) thp
+
+(** val delete_via : expr -> path0 -> path0 -> nat -> expr outcome **)
+
+let delete_via root pp thp ti =
+  match get root pp with
+  | Some p ->
+    (match get root (app thp ((SBody ti) :: [])) with
+     | Some x ->
+       (match find (holds_object thp) (holders pp p) with
+        | Some p0 ->
+          let (hp, h) = p0 in
+          obind (expr_remove eq_expr_item hp h thp ti x) (fun kh ->
+            put_o root hp (snd kh))
+        | None ->
+          (match find (fun ph ->
+                   existsb (fun it -> eq_node_item x (snd it))
+                     (cview (snd ph))) (number_args pp O (args_of p)) with
+           | Some p0 ->
+             let (hp, a) = p0 in
+             obind (expr_remove eq_node_item hp a thp ti x) (fun kh ->
+               put_o root hp (snd kh))
+           | None ->
+             obind (expr_remove eq_expr_item pp p thp ti x) (fun kh ->
+               put_o root pp (snd kh))))
+     | None -> Raise EBadCase)
+  | None -> Raise EBadCase
+
+(** val delete : expr -> path0 -> nat -> expr outcome **)
+
+let delete root thp ti =
+  delete_via root (nav_parent thp) thp ti
+
+(** val remove_via : expr -> path0 -> path0 -> nat -> expr outcome **)
+
+let remove_via root pp thp ti =
+  match get root pp with
+  | Some p ->
+    (match get root (app thp ((SBody ti) :: [])) with
+     | Some x ->
+       obind (expr_remove eq_expr_item pp p thp ti x) (fun kh ->
+         put_o root pp (snd kh))
+     | None -> Raise EBadCase)
+  | None -> Raise EBadCase
+
+(** val remove : expr -> path0 -> nat -> expr outcome **)
+
+let remove root thp ti =
+  remove_via root (nav_parent thp) thp ti
+
+(** val replace_in :
+    expr -> path0 -> expr -> path0 -> nat -> expr -> expr list -> expr outcome **)
+
+let replace_in root hp h thp ti x new0 =
+  obind (expr_remove eq_expr_item hp h thp ti x) (fun kh ->
+    obind (expr_insert (snd kh) (Z.of_nat (fst kh)) new0) (fun h'' ->
+      put_o root hp h''))
+
+(** val replace_via :
+    expr -> path0 -> path0 -> nat -> expr list -> expr outcome **)
+
+let replace_via root pp thp ti new0 =
+  match get root pp with
+  | Some p ->
+    (match get root (app thp ((SBody ti) :: [])) with
+     | Some x ->
+       (match find (holds_object thp) (holders pp p) with
+        | Some p0 -> let (hp, h) = p0 in replace_in root hp h thp ti x new0
+        | None ->
+          (match find (fun ph -> existsb (eq_expr_item x) (body_of (snd ph)))
+                   (number_args pp O (args_of p)) with
+           | Some p0 -> let (hp, a) = p0 in replace_in root hp a thp ti x new0
+           | None -> replace_in root pp p thp ti x new0))
+     | None -> Raise EBadCase)
+  | None -> Raise EBadCase
+
+(** val replace_with : expr -> path0 -> nat -> expr list -> expr outcome **)
+
+let replace_with root thp ti new0 =
+  replace_via root (nav_parent thp) thp ti new0
+
+(** val insert : expr -> path0 -> z -> expr list -> expr outcome **)
+
+let insert root np i new0 =
+  match get root np with
+  | Some h -> obind (expr_insert h i new0) (fun h' -> put_o root np h')
+  | None -> Raise EBadCase
+
+(** val append : expr -> path0 -> expr list -> expr outcome **)
+
+let append root np new0 =
+  match get root np with
+  | Some h -> obind (expr_append h new0) (fun h' -> put_o root np h')
+  | None -> Raise EBadCase
+
+(** val copy : expr -> expr **)
+
+let copy e =
+  e
+
+(** val rename : expr -> str -> expr outcome **)
+
+let rename e s =
+  match e with
+  | ECmd (_, a, b, p) -> Done (ECmd (s, a, b, p))
+  | ENamed (_, a, b, p) -> Done (ENamed (s, a, b, p))
+  | _ -> Raise EBadCase
+
+(** val set_name : expr -> path0 -> str -> expr outcome **)
+
+let set_name root np s =
+  match get root np with
+  | Some h -> obind (rename h s) (fun h' -> put_o root np h')
+  | None -> Raise EBadCase
+
+(** val text_of : str -> expr **)
+
+let text_of s =
+  EText { ttext = s; tpos = (Zneg XH); tcat = TText }
+
+(** val restring : expr -> str -> expr outcome **)
+
+let restring e s =
+  match e with
+  | EText _ -> Raise EBadCase
+  | ERaw (_, _) -> Raise EBadCase
+  | EStr _ -> Raise EBadCase
+  | ECmd (n0, a, b, p) ->
+    (match a with
+     | [] -> Raise EAssertionError
+     | a0 :: l ->
+       (match l with
+        | [] ->
+          Done (ECmd (n0, ((set_body a0 ((text_of s) :: [])) :: []), b, p))
+        | _ :: _ -> Raise EAssertionError))
+  | _ ->
+    (match cview e with
+     | [] -> Raise EAssertionError
+     | p :: l ->
+       let (_, x) = p in
+       (match l with
+        | [] ->
+          if is_node x
+          then Raise EAssertionError
+          else Done (set_body e ((text_of s) :: []))
+        | _ :: _ -> Raise EAssertionError))
+
+(** val set_string : expr -> path0 -> str -> expr outcome **)
+
+let set_string root np s =
+  match get root np with
+  | Some h -> obind (restring h s) (fun h' -> put_o root np h')
+  | None -> Raise EBadCase
+
+(** val select : 'a1 list -> nat list -> 'a1 list option **)
+
+let rec select l = function
+| [] -> Some []
+| i :: r ->
+  (match nth_error l i with
+   | Some x ->
+     (match select l r with
+      | Some xs -> Some (x :: xs)
+      | None -> None)
+   | None -> None)
+
+(** val nodup_nat : nat list -> bool **)
+
+let rec nodup_nat = function
+| [] -> true
+| x :: r -> (&&) (negb (existsb (Nat.eqb x) r)) (nodup_nat r)
+
+(** val reargs : expr -> nat list -> expr outcome **)
+
+let reargs e idxs =
+  match e with
+  | ECmd (_, a, _, _) ->
+    if nodup_nat idxs
+    then (match select a idxs with
+          | Some a' -> Done (set_args_of e a')
+          | None -> Raise EIndexError0)
+    else Raise EBadCase
+  | ENamed (_, a, _, _) ->
+    if nodup_nat idxs
+    then (match select a idxs with
+          | Some a' -> Done (set_args_of e a')
+          | None -> Raise EIndexError0)
+    else Raise EBadCase
+  | _ -> Raise EBadCase
+
+(** val set_args : expr -> path0 -> nat list -> expr outcome **)
+
+let set_args root np idxs =
+  match get root np with
+  | Some h -> obind (reargs h idxs) (fun h' -> put_o root np h')
+  | None -> Raise EBadCase
+
+(** val args_insert :
+    expr -> path0 -> z -> groupkind -> str -> expr outcome **)
+
+let args_insert root np i k s =
+  match get root np with
+  | Some h ->
+    (match h with
+     | ECmd (_, a, _, _) ->
+       put_o root np
+         (set_args_of h
+           (list_insert i (EGroup (k, ((EStr s) :: []), (Zneg XH))) a))
+     | ENamed (_, a, _, _) ->
+       put_o root np
+         (set_args_of h
+           (list_insert i (EGroup (k, ((EStr s) :: []), (Zneg XH))) a))
+     | _ -> Raise EBadCase)
+  | None -> Raise EBadCase
+
+type zs = z list
+
+(** val take : nat -> zs -> (zs * zs) option **)
+
+let rec take n0 l =
+  match n0 with
+  | O -> Some ([], l)
+  | S n' ->
+    (match l with
+     | [] -> None
+     | x :: l' ->
+       (match take n' l' with
+        | Some p -> let (a, r) = p in Some ((x :: a), r)
+        | None -> None))
+
+(** val dec_list : zs -> (zs * zs) option **)
+
+let dec_list = function
+| [] -> None
+| n0 :: l' -> if Z.ltb n0 Z0 then None else take (Z.to_nat n0) l'
+
+(** val to_str : zs -> str **)
+
+let to_str l =
+  map Z.to_N l
+
+(** val to_nats : zs -> nat list **)
+
+let to_nats l =
+  map Z.to_nat l
+
+(** val split_neg1 : zs -> zs * zs **)
+
+let rec split_neg1 = function
+| [] -> ([], [])
+| x :: l' ->
+  if Z.eqb x (Zneg XH)
+  then ([], l')
+  else let (a, r) = split_neg1 l' in ((x :: a), r)
+
+(** val dec_mats : expr -> nat -> zs -> (expr list * zs) option **)
+
+let rec dec_mats donor n0 l =
+  match n0 with
+  | O -> Some ([], l)
+  | S n' ->
+    (match l with
+     | [] -> None
+     | tag :: l1 ->
+       (match dec_list l1 with
+        | Some p ->
+          let (body, l2) = p in
+          let item1 =
+            if Z.eqb tag Z0
+            then Some (EStr (to_str body))
+            else (match resolve donor [] (to_nats body) with
+                  | Some p0 ->
+                    let (_, x) = p0 in
+                    if is_node x then Some (copy x) else None
+                  | None -> None)
+          in
+          (match item1 with
+           | Some x ->
+             (match dec_mats donor n' l2 with
+              | Some p0 -> let (xs, r) = p0 in Some ((x :: xs), r)
+              | None -> None)
+           | None -> None)
+        | None -> None))
+
+(** val dec_matlist : expr -> zs -> (expr list * zs) option **)
+
+let dec_matlist donor = function
+| [] -> None
+| n0 :: l' -> if Z.ltb n0 Z0 then None else dec_mats donor (Z.to_nat n0) l'
+
+(** val locate :
+    expr -> nat list -> ((path0 * (path0 * nat)) * expr) option **)
+
+let locate root vp =
+  match resolve root [] vp with
+  | Some p ->
+    let (np, x) = p in
+    (match resolve root [] (removelast vp) with
+     | Some p0 ->
+       let (pp, _) = p0 in
+       (match split_node_path np with
+        | Some p1 -> Some ((pp, p1), x)
+        | None -> None)
+     | None -> None)
+  | None -> None
+
+(** val exec_op : expr -> expr -> zs -> (expr outcome * zs) option **)
+
+let exec_op donor root = function
+| [] -> None
+| opc :: l0 ->
+  if Z.eqb opc (Zpos (XO (XO XH)))
+  then (match l0 with
+        | [] -> None
+        | k :: l0' ->
+          (match dec_list l0' with
+           | Some p ->
+             let (vpz, l1) = p in
+             (match dec_matlist donor l1 with
+              | Some p0 ->
+                let (new0, rest) = p0 in
+                let vp = to_nats vpz in
+                Some
+                ((match locate root vp with
+                  | Some p1 ->
+                    let (p2, x) = p1 in
+                    let (_, p3) = p2 in
+                    let (hp, i) = p3 in
+                    (match resolve root [] (firstn (Z.to_nat k) vp) with
+                     | Some p4 ->
+                       let (ap, _) = p4 in
+                       if is_node x
+                       then replace_via root ap hp i new0
+                       else Raise EBadCase
+                     | None -> Raise EBadCase)
+                  | None -> Raise EBadCase), rest)
+              | None -> None)
+           | None -> None))
+  else (match dec_list l0 with
+        | Some p ->
+          let (vpz, l1) = p in
+          let vp = to_nats vpz in
+          let on_target = fun f ->
+            match locate root vp with
+            | Some p0 ->
+              let (p1, x) = p0 in
+              let (pp, p2) = p1 in
+              let (hp, i) = p2 in
+              if (&&) (is_node x) (path_eqb (nav_parent hp) pp)
+              then f hp i
+              else Raise EBadCase
+            | None -> Raise EBadCase
+          in
+          let on_node = fun f ->
+            match resolve root [] vp with
+            | Some p0 ->
+              let (np, x) = p0 in if is_node x then f np else Raise EBadCase
+            | None -> Raise EBadCase
+          in
+          if Z.eqb opc (Zpos XH)
+          then Some ((on_target (fun hp i -> delete root hp i)), l1)
+          else if Z.eqb opc (Zpos (XO XH))
+               then Some ((on_target (fun hp i -> remove root hp i)), l1)
+               else if Z.eqb opc (Zpos (XI XH))
+                    then (match dec_matlist donor l1 with
+                          | Some p0 ->
+                            let (new0, rest) = p0 in
+                            Some
+                            ((on_target (fun hp i ->
+                               replace_with root hp i new0)), rest)
+                          | None -> None)
+                    else if Z.eqb opc (Zpos (XI (XO XH)))
+                         then (match l1 with
+                               | [] -> None
+                               | i :: l2 ->
+                                 (match dec_matlist donor l2 with
+                                  | Some p0 ->
+                                    let (new0, rest) = p0 in
+                                    Some
+                                    ((on_node (fun np ->
+                                       insert root np i new0)), rest)
+                                  | None -> None))
+                         else if Z.eqb opc (Zpos (XO (XI XH)))
+                              then (match dec_matlist donor l1 with
+                                    | Some p0 ->
+                                      let (new0, rest) = p0 in
+                                      Some
+                                      ((on_node (fun np ->
+                                         append root np new0)), rest)
+                                    | None -> None)
+                              else if Z.eqb opc (Zpos (XI (XI XH)))
+                                   then (match dec_list l1 with
+                                         | Some p0 ->
+                                           let (s, rest) = p0 in
+                                           Some
+                                           ((on_node (fun np ->
+                                              set_name root np (to_str s))),
+                                           rest)
+                                         | None -> None)
+                                   else if Z.eqb opc (Zpos (XO (XO (XO XH))))
+                                        then (match dec_list l1 with
+                                              | Some p0 ->
+                                                let (s, rest) = p0 in
+                                                Some
+                                                ((on_node (fun np ->
+                                                   set_string root np
+                                                     (to_str s))), rest)
+                                              | None -> None)
+                                        else if Z.eqb opc (Zpos (XI (XO (XO
+                                                  XH))))
+                                             then (match dec_list l1 with
+                                                   | Some p0 ->
+                                                     let (ix, rest) = p0 in
+                                                     Some
+                                                     ((on_node (fun np ->
+                                                        set_args root np
+                                                          (to_nats ix))),
+                                                     rest)
+                                                   | None -> None)
+                                             else if Z.eqb opc (Zpos (XO (XI
+                                                       (XO XH))))
+                                                  then (match l1 with
+                                                        | [] -> None
+                                                        | i :: l3 ->
+                                                          (match l3 with
+                                                           | [] -> None
+                                                           | kd :: l2 ->
+                                                             (match dec_list
+                                                                    l2 with
+                                                              | Some p0 ->
+                                                                let (
+                                                                  s, rest) =
+                                                                  p0
+                                                                in
+                                                                Some
+                                                                ((on_node
+                                                                   (fun np ->
+                                                                   args_insert
+                                                                    root np i
+                                                                    (if 
+                                                                    Z.eqb kd
+                                                                    Z0
+                                                                    then 
+                                                                    GBrace
+                                                                    else 
+                                                                    GBracket)
+                                                                    (to_str s))),
+                                                                rest)
+                                                              | None -> None)))
+                                                  else None
+        | None -> None)
+
+(** val code_of : eerr -> z **)
+
+let code_of = function
+| ETypeError0 -> Zpos XH
+| EValueError0 -> Zpos (XO XH)
+| EAssertionError -> Zpos (XI XH)
+| EIndexError0 -> Zpos (XO (XO XH))
+| EBadCase -> Zpos (XI (XO (XO XH)))
+
+(** val emit : z -> expr -> zs **)
+
+let emit code root =
+  let s = estr root in code :: ((Z.of_nat (length s)) :: (map Z.of_N s))
+
+(** val run_loop : nat -> expr -> expr -> zs -> zs **)
+
+let rec run_loop fuel donor root l =
+  match fuel with
+  | O -> []
+  | S f ->
+    (match l with
+     | [] -> []
+     | _ :: _ ->
+       (match exec_op donor root l with
+        | Some p ->
+          let (o, rest) = p in
+          (match o with
+           | Done root' -> app (emit Z0 root') (run_loop f donor root' rest)
+           | Raise e ->
+             app (emit (code_of e) root) (run_loop f donor root rest))
+        | None -> (Zneg (XO XH)) :: []))
+
+(** val run_edit : zs -> zs **)
+
+let run_edit inp =
+  let (src, l1) = split_neg1 inp in
+  let (dsrc, opsz) = split_neg1 l1 in
+  (match parse (to_str src) true [] with
+   | Ok root ->
+     (match parse (to_str dsrc) true [] with
+      | Ok donor -> run_loop (length opsz) donor root opsz
+      | Err _ -> (Zneg XH) :: [])
+   | Err _ -> (Zneg XH) :: [])
